@@ -1066,9 +1066,17 @@ Lemma has_state_mk : forall a b d S P C T k,
   has_state (mkChart a b d S P C T) k = match lookup k S with Some _ => true | None => false end.
 Proof. reflexivity. Qed.
 
+(* what add_state needs from the new state object: a name, no `initial` (a compound state is
+   added before its children, so any initial would dangle or fail validate()), and a `memory`
+   that is unset or already valid (a sibling-to-be of the new history state) *)
+Definition memory_ok (c : chart) (st : state) (parent : option name) : Prop :=
+  forall m, s_memory st = Some m ->
+    is_history (s_kind st) = true /\ m <> s_name st /\
+    exists q, parent = Some q /\ In m (children_for c q).
+
 Lemma register_sound : forall c st parent l,
   sound c -> has_state c (s_name st) = false ->
-  s_initial st = None -> s_memory st = None ->
+  s_initial st = None -> memory_ok c st parent ->
   (forall q, parent = Some q -> has_state c q = true) ->
   olookup parent (c_children c) = Some l ->
   (parent = None -> l = []) ->
@@ -1148,14 +1156,22 @@ Proof.
       apply has_state_false in Hfresh. fold nm in Hfresh. rewrite <- E in Hfresh. congruence.
     + intros tg E. apply Hmono, (H3 tg E).
   - intros k s. rewrite V1. destruct (seqbP k nm) as [->|Hn].
-    + intros E; inv E. rewrite Hi, Hm. split; intros x E; discriminate.
+    + intros E; inv E. rewrite Hi. split; intros x E; [discriminate|].
+      destruct (Hm x E) as [_ [_ [q [-> Hq]]]]. apply Hmono. unfold children_for in Hq.
+      destruct (olookup (Some q) (c_children c)) as [lq|] eqn:Eq; [|destruct Hq].
+      apply (sound_child_state c HS _ _ _ Eq Hq).
     + intros Hk. destruct (sd_refs c HS _ _ Hk) as [H1 H2]. split; intros x E; apply Hmono; auto.
   - intros k s i. rewrite V1. destruct (seqbP k nm) as [->|Hn].
     + intros E; inv E. rewrite Hi. simpl. discriminate.
     + intros Hk Hkind Hini. destruct (sd_vinit c HS _ _ _ Hk Hkind Hini) as [H1 H2].
       split; [apply Hmono, H1|apply Hch, H2].
   - intros k s m. rewrite V1. destruct (seqbP k nm) as [->|Hn].
-    + intros E; inv E. rewrite Hm. discriminate.
+    + intros E; inv E. intros _ Hmem. destruct (Hm m Hmem) as [_ [Hmn [q [-> Hq]]]].
+      split; [exact Hmn|]. split.
+      * apply Hmono. unfold children_for in Hq.
+        destruct (olookup (Some q) (c_children c)) as [lq|] eqn:Eq; [|destruct Hq].
+        apply (sound_child_state c HS _ _ _ Eq Hq).
+      * exists q. split; [|apply Hch; exact Hq]. unfold parent_for. rewrite V2, seqb_refl. reflexivity.
     + intros Hk Hkind Hmem. destruct (sd_vmem c HS _ _ _ Hk Hkind Hmem) as [H1 [H2 [p [H3 H4]]]].
       split; [exact H1|]. split; [apply Hmono, H2|]. exists p. split; [|apply Hch, H4].
       unfold parent_for in *. rewrite V2. destruct (seqbP k nm); [congruence|exact H3].
@@ -1236,7 +1252,7 @@ Qed.
 
 Lemma add_state_sound : forall c st parent c',
   sound c -> no_empty_name c ->
-  s_name st <> "" -> s_initial st = None -> s_memory st = None ->
+  s_name st <> "" -> s_initial st = None -> memory_ok c st parent ->
   add_state c st parent = (c', EOk) -> sound c'.
 Proof.
   intros c st parent c' HS Hne Hnm Hi Hm H.
@@ -1639,3 +1655,2141 @@ Proof.
     split; [exact H1|]. split; [rewrite V4; exact H2|]. exists p. split; [|apply Hchf; assumption].
     unfold parent_for in *. rewrite V2. destruct (seqbP k n); [congruence|exact H3].
 Qed.
+
+(* ================================================================== 4. remove_state *)
+
+(* ------------------------------------------------------------------ filters on dictionaries *)
+Lemma filter_filter : forall {A} (p q : A -> bool) l,
+  filter p (filter q l) = filter (fun x => q x && p x) l.
+Proof.
+  intros A p q l; induction l as [|x l IH]; simpl; [reflexivity|].
+  destruct (q x); simpl; [destruct (p x); rewrite IH; reflexivity|exact IH].
+Qed.
+
+Lemma filter_map_comm : forall {A B} (g : A -> B) (p : B -> bool) l,
+  filter p (map g l) = map g (filter (fun x => p (g x)) l).
+Proof.
+  intros A B g p l; induction l as [|x l IH]; simpl; [reflexivity|].
+  destruct (p (g x)); simpl; rewrite IH; reflexivity.
+Qed.
+
+Lemma filter_true : forall {A} (p : A -> bool) l, (forall x, In x l -> p x = true) -> filter p l = l.
+Proof.
+  intros A p l; induction l as [|x l IH]; simpl; intros H; [reflexivity|].
+  rewrite (H x (or_introl eq_refl)). rewrite IH; [reflexivity|]. intros y Hy; apply H; right; exact Hy.
+Qed.
+
+Lemma map_id_in : forall {A} (g : A -> A) l, (forall x, In x l -> g x = x) -> map g l = l.
+Proof.
+  intros A g l; induction l as [|x l IH]; simpl; intros H; [reflexivity|].
+  rewrite (H x (or_introl eq_refl)). rewrite IH; [reflexivity|]. intros y Hy; apply H; right; exact Hy.
+Qed.
+
+Lemma lookup_filter_key : forall {V} (p : name -> bool) k (d : list (name * V)),
+  lookup k (filter (fun kv => p (fst kv)) d) = if p k then lookup k d else None.
+Proof.
+  intros V p k d; induction d as [|[k0 v0] d IH]; simpl; [destruct (p k); reflexivity|].
+  destruct (p k0) eqn:E0; simpl.
+  - destruct (seqbP k k0) as [->|Hn]; [rewrite E0; reflexivity|exact IH].
+  - destruct (seqbP k k0) as [->|Hn]; [rewrite E0 in *; exact IH|exact IH].
+Qed.
+
+Lemma olookup_filter_key : forall {V} (p : option name -> bool) k (d : list (option name * V)),
+  olookup k (filter (fun kv => p (fst kv)) d) = if p k then olookup k d else None.
+Proof.
+  intros V p k d; induction d as [|[k0 v0] d IH]; simpl; [destruct (p k); reflexivity|].
+  destruct (p k0) eqn:E0; simpl.
+  - destruct (oeqbP k k0) as [->|Hn]; [rewrite E0; reflexivity|exact IH].
+  - destruct (oeqbP k k0) as [->|Hn]; [rewrite E0 in *; exact IH|exact IH].
+Qed.
+
+Lemma olookup_mapv : forall {V W} (f : V -> W) k (d : list (option name * V)),
+  olookup k (map (fun kv => (fst kv, f (snd kv))) d) = option_map f (olookup k d).
+Proof.
+  intros V W f k d; induction d as [|[k0 v0] d IH]; simpl; [reflexivity|].
+  destruct (oeqbP k k0); [reflexivity|exact IH].
+Qed.
+
+Lemma NoDup_map_filter : forall {A B} (g : A -> B) (p : A -> bool) l,
+  NoDup (map g l) -> NoDup (map g (filter p l)).
+Proof.
+  intros A B g p l; induction l as [|x l IH]; simpl; intros H; [constructor|].
+  inv H. destruct (p x); simpl; [|auto]. constructor; [|auto].
+  intros Hin. apply H2. apply in_map_iff in Hin. destruct Hin as [y [E Hy]].
+  apply filter_In in Hy. rewrite <- E. apply in_map. apply Hy.
+Qed.
+
+Lemma dremove_filter : forall {V} k (d : list (name * V)), NoDup (map fst d) ->
+  dremove k d = filter (fun kv => negb (str_eqb (fst kv) k)) d.
+Proof.
+  intros V k d; induction d as [|[k0 v0] d IH]; simpl; intros H; [reflexivity|].
+  inv H. rewrite (seqb_sym k0 k). destruct (seqbP k k0) as [->|Hn]; simpl.
+  - symmetry. apply filter_true. intros [k1 v1] Hin. simpl.
+    apply negb_true_iff, seqb_neq. intros ->. apply H2.
+    change k0 with (fst (k0, v1)). apply in_map. exact Hin.
+  - rewrite IH by assumption. reflexivity.
+Qed.
+
+Lemma oremove_filter : forall {V} k (d : list (option name * V)), NoDup (map fst d) ->
+  oremove k d = filter (fun kv => negb (opt_eqb str_eqb (fst kv) k)) d.
+Proof.
+  intros V k d; induction d as [|[k0 v0] d IH]; simpl; intros H; [reflexivity|].
+  inv H. destruct (oeqbP k k0) as [->|Hn]; simpl.
+  - rewrite oeqb_refl. simpl. symmetry. apply filter_true. intros [k1 v1] Hin. simpl.
+    apply negb_true_iff, oeqb_neq. intros ->. apply H2.
+    change k0 with (fst (k0, v1)). apply in_map. exact Hin.
+  - destruct (oeqbP k0 k); [congruence|]. simpl. rewrite IH by assumption. reflexivity.
+Qed.
+
+Lemma oset_map : forall {V} k (v : V) d, NoDup (map fst d) -> In k (map fst d) ->
+  oset k v d = map (fun kv => if opt_eqb str_eqb (fst kv) k then (k, v) else kv) d.
+Proof.
+  intros V k v d; induction d as [|[k0 v0] d IH]; simpl; intros Hnd Hin; [destruct Hin|].
+  inv Hnd. destruct (oeqbP k k0) as [->|Hn]; simpl.
+  - rewrite oeqb_refl. f_equal. symmetry. apply map_id_in. intros [k1 v1] Hin1. simpl.
+    destruct (oeqbP k1 k0) as [->|_]; [|reflexivity]. exfalso. apply H1.
+    change k0 with (fst (k0, v1)). apply in_map. exact Hin1.
+  - destruct (oeqbP k0 k); [congruence|]. f_equal. apply IH; [assumption|].
+    destruct Hin; [congruence|assumption].
+Qed.
+
+Lemma remove_first_filter : forall k l, NoDup l ->
+  remove_first k l = filter (fun x => negb (str_eqb x k)) l.
+Proof.
+  intros k l; induction l as [|y l IH]; simpl; intros H; [reflexivity|].
+  inv H. rewrite (seqb_sym y k). destruct (seqbP k y) as [->|Hn]; simpl.
+  - symmetry. apply filter_true. intros x Hx. apply negb_true_iff, seqb_neq. intros ->; auto.
+  - rewrite IH by assumption. reflexivity.
+Qed.
+
+Lemma count_occ_filter : forall (p : name -> bool) l x,
+  count_occ string_dec (filter p l) x = if p x then count_occ string_dec l x else 0.
+Proof.
+  intros p l x; induction l as [|y l IH]; simpl; [destruct (p x); reflexivity|].
+  destruct (p y) eqn:Ey; simpl.
+  - destruct (string_dec y x) as [->|Hn]; [rewrite Ey in *; rewrite IH; reflexivity|exact IH].
+  - destruct (string_dec y x) as [->|Hn]; [rewrite Ey in *; exact IH|exact IH].
+Qed.
+
+Lemma filter_length_le : forall {A} (p : A -> bool) l, length (filter p l) <= length l.
+Proof. intros A p l; induction l as [|x l IH]; simpl; [lia|]. destruct (p x); simpl; lia. Qed.
+
+(* ------------------------------------------------------------------ removing a set of states *)
+Definition oin (D : name -> bool) (o : option name) : bool :=
+  match o with Some x => D x | None => false end.
+
+Definition clr (D : name -> bool) (s : state) : state :=
+  if kind_eqb (s_kind s) KCompound && oin D (s_initial s) then set_initial s None
+  else if is_history (s_kind s) && oin D (s_memory s) then set_memory_ s None
+  else s.
+
+(* the chart without the states in D: entries of the three dictionaries keyed by a member of D
+   disappear, members of D disappear from every children list, transitions with an end in D
+   disappear, initial / memory naming a member of D are reset; order is kept everywhere *)
+Definition rm (D : name -> bool) (c : chart) : chart :=
+  mkChart (c_name c) (c_description c) (c_preamble c)
+    (filter (fun kv => negb (D (fst kv))) (map (fun kv => (fst kv, clr D (snd kv))) (c_states c)))
+    (filter (fun kv => negb (D (fst kv))) (c_parent c))
+    (filter (fun kv => negb (oin D (fst kv)))
+            (map (fun kv => (fst kv, filter (fun x => negb (D x)) (snd kv))) (c_children c)))
+    (filter (fun t => negb (D (t_source t) || oin D (t_target t))) (c_transitions c)).
+
+Lemma clr_ext : forall D D' s, (forall x, D x = D' x) -> clr D s = clr D' s.
+Proof.
+  intros D D' s H. unfold clr.
+  assert (E : forall o, oin D o = oin D' o) by (intros [x|]; simpl; auto).
+  rewrite !E. reflexivity.
+Qed.
+
+Lemma filter_ext_all : forall {A} (p q : A -> bool) l, (forall x, p x = q x) -> filter p l = filter q l.
+Proof. intros A p q l H. apply filter_ext. exact H. Qed.
+
+Lemma rm_ext : forall D D' c, (forall x, D x = D' x) -> rm D c = rm D' c.
+Proof.
+  intros D D' c H. unfold rm.
+  assert (E : forall o, oin D o = oin D' o) by (intros [x|]; simpl; auto).
+  f_equal.
+  - rewrite (filter_ext_all (fun kv : name * state => negb (D (fst kv))) (fun kv => negb (D' (fst kv))))
+      by (intros x; rewrite H; reflexivity).
+    f_equal. apply map_ext. intros [k s]. simpl. f_equal. apply clr_ext; exact H.
+  - apply filter_ext_all. intros x; rewrite H; reflexivity.
+  - rewrite (filter_ext_all (fun kv : option name * list name => negb (oin D (fst kv))) (fun kv => negb (oin D' (fst kv))))
+      by (intros x; rewrite E; reflexivity).
+    f_equal. apply map_ext. intros [k l]. simpl. f_equal. apply filter_ext_all. intros x; rewrite H; reflexivity.
+  - apply filter_ext_all. intros t. rewrite H, E. reflexivity.
+Qed.
+
+Lemma clr_spec : forall D s,
+  s_name (clr D s) = s_name s /\ s_kind (clr D s) = s_kind s /\
+  (forall i, s_initial (clr D s) = Some i ->
+     s_initial s = Some i /\ (s_kind s = KCompound -> D i = false)) /\
+  (forall m, s_memory (clr D s) = Some m ->
+     s_memory s = Some m /\ (is_history (s_kind s) = true -> D m = false)).
+Proof.
+  intros D s. unfold clr.
+  destruct (kind_eqb (s_kind s) KCompound) eqn:Ec; destruct (is_history (s_kind s)) eqn:Eh;
+    try (apply kind_eqb_eq in Ec; rewrite Ec in Eh; discriminate);
+    destruct (s_initial s) as [i|] eqn:Ei; destruct (s_memory s) as [m|] eqn:Em; simpl;
+    try destruct (D i) eqn:Di; try destruct (D m) eqn:Dm; simpl; rewrite ?Ei, ?Em;
+    repeat split; try discriminate; try congruence;
+    try (intros Hk; rewrite Hk in Ec; discriminate).
+Qed.
+
+Lemma clr_false : forall D s, (forall x, D x = false) -> clr D s = s.
+Proof.
+  intros D s H. unfold clr.
+  assert (E : forall o, oin D o = false) by (intros [x|]; simpl; auto).
+  rewrite !E, !andb_false_r. reflexivity.
+Qed.
+
+Lemma rm_false : forall D c, (forall x, D x = false) -> rm D c = c.
+Proof.
+  intros D c H. unfold rm.
+  assert (E : forall o, oin D o = false) by (intros [x|]; simpl; auto).
+  destruct c as [a b d S P C T]. cbn [c_name c_description c_preamble c_states c_parent c_children c_transitions].
+  f_equal.
+  - rewrite filter_true by (intros x _; rewrite H; reflexivity).
+    apply map_id_in. intros [k s] _. simpl. rewrite clr_false by exact H. reflexivity.
+  - apply filter_true. intros x _; rewrite H; reflexivity.
+  - rewrite filter_true by (intros x _; rewrite E; reflexivity).
+    apply map_id_in. intros [k l] _. simpl. f_equal. apply filter_true. intros x _; rewrite H; reflexivity.
+  - apply filter_true. intros t _. rewrite H, E. reflexivity.
+Qed.
+
+Lemma clr_clr : forall D1 D2 s, clr D2 (clr D1 s) = clr (fun x => D1 x || D2 x) s.
+Proof.
+  intros D1 D2 s. unfold clr.
+  destruct (kind_eqb (s_kind s) KCompound) eqn:Ec; destruct (is_history (s_kind s)) eqn:Eh;
+    try (apply kind_eqb_eq in Ec; rewrite Ec in Eh; discriminate);
+    destruct (s_initial s) as [i|] eqn:Ei; destruct (s_memory s) as [m|] eqn:Em; simpl;
+    try destruct (D1 i) eqn:Di; try destruct (D1 m) eqn:Dm; simpl;
+    rewrite ?Ec, ?Eh, ?Ei, ?Em; simpl;
+    try destruct (D2 i) eqn:Di2; try destruct (D2 m) eqn:Dm2; simpl; try reflexivity.
+Qed.
+
+Lemma rm_rm : forall D1 D2 c, rm D2 (rm D1 c) = rm (fun x => D1 x || D2 x) c.
+Proof.
+  intros D1 D2 c. unfold rm.
+  cbn [c_name c_description c_preamble c_states c_parent c_children c_transitions].
+  assert (E : forall o, oin (fun x => D1 x || D2 x) o = oin D1 o || oin D2 o) by (intros [x|]; reflexivity).
+  f_equal.
+  - rewrite (filter_map_comm (fun kv : name * state => (fst kv, clr D2 (snd kv)))). simpl.
+    rewrite filter_filter.
+    rewrite (filter_map_comm (fun kv : name * state => (fst kv, clr D1 (snd kv)))). simpl.
+    rewrite (filter_map_comm (fun kv : name * state => (fst kv, clr (fun x => D1 x || D2 x) (snd kv)))). simpl.
+    rewrite map_map. simpl.
+    rewrite (filter_ext_all _ (fun x : name * state => negb (D1 (fst x) || D2 (fst x))))
+      by (intros x; rewrite negb_orb; reflexivity).
+    apply map_ext. intros [k s]. simpl. rewrite clr_clr. reflexivity.
+  - rewrite filter_filter. apply filter_ext_all. intros x. rewrite negb_orb. reflexivity.
+  - rewrite (filter_map_comm (fun kv : option name * list name => (fst kv, filter (fun x => negb (D2 x)) (snd kv)))). simpl.
+    rewrite filter_filter.
+    rewrite (filter_map_comm (fun kv : option name * list name => (fst kv, filter (fun x => negb (D1 x)) (snd kv)))). simpl.
+    rewrite (filter_map_comm (fun kv : option name * list name => (fst kv, filter (fun x => negb (D1 x || D2 x)) (snd kv)))). simpl.
+    rewrite map_map. simpl.
+    rewrite (filter_ext_all _ (fun x : option name * list name => negb (oin (fun x0 => D1 x0 || D2 x0) (fst x))))
+      by (intros x; rewrite E, negb_orb; reflexivity).
+    apply map_ext. intros [k l]. simpl. f_equal. rewrite filter_filter.
+    apply filter_ext_all. intros x. rewrite negb_orb. reflexivity.
+  - rewrite filter_filter. apply filter_ext_all. intros t. rewrite E.
+    destruct (D1 (t_source t)), (D2 (t_source t)), (oin D1 (t_target t)), (oin D2 (t_target t)); reflexivity.
+Qed.
+
+(* ------------------------------------------------------------------ lookups in rm D c *)
+Definition closed (c : chart) (D : name -> bool) : Prop :=
+  forall x q, lookup x (c_parent c) = Some (Some q) -> D q = true -> D x = true.
+
+Lemma rm_states : forall D c k,
+  lookup k (c_states (rm D c)) = if D k then None else option_map (clr D) (lookup k (c_states c)).
+Proof.
+  intros D c k. unfold rm. cbn [c_states].
+  rewrite (lookup_filter_key (fun x => negb (D x))), lookup_mapv. destruct (D k); reflexivity.
+Qed.
+
+Lemma rm_parent : forall D c k,
+  lookup k (c_parent (rm D c)) = if D k then None else lookup k (c_parent c).
+Proof.
+  intros D c k. unfold rm. cbn [c_parent].
+  rewrite (lookup_filter_key (fun x => negb (D x))). destruct (D k); reflexivity.
+Qed.
+
+Lemma rm_children : forall D c k,
+  olookup k (c_children (rm D c)) =
+  if oin D k then None else option_map (filter (fun x => negb (D x))) (olookup k (c_children c)).
+Proof.
+  intros D c k. unfold rm. cbn [c_children].
+  rewrite (olookup_filter_key (fun x => negb (oin D x))), olookup_mapv. destruct (oin D k); reflexivity.
+Qed.
+
+Lemma rm_has_state : forall D c k, has_state (rm D c) k = negb (D k) && has_state c k.
+Proof.
+  intros D c k. unfold has_state. rewrite rm_states.
+  destruct (D k); [reflexivity|]. destruct (lookup k (c_states c)); reflexivity.
+Qed.
+
+Lemma rm_transitions : forall D c t,
+  In t (c_transitions (rm D c)) <->
+  In t (c_transitions c) /\ D (t_source t) = false /\ oin D (t_target t) = false.
+Proof.
+  intros D c t. unfold rm. cbn [c_transitions]. rewrite filter_In, negb_true_iff, orb_false_iff. tauto.
+Qed.
+
+Lemma rm_children_for : forall D c k x,
+  D k = false -> (In x (children_for (rm D c) k) <-> In x (children_for c k) /\ D x = false).
+Proof.
+  intros D c k x Hk. unfold children_for. rewrite rm_children. simpl. rewrite Hk.
+  destruct (olookup (Some k) (c_children c)) as [l|]; simpl.
+  - rewrite filter_In, negb_true_iff. tauto.
+  - tauto.
+Qed.
+
+Lemma rm_fields_ok : forall D c, fields_ok c -> fields_ok (rm D c).
+Proof.
+  intros D c H k s. rewrite rm_states. destruct (D k); [discriminate|].
+  destruct (lookup k (c_states c)) as [s0|] eqn:E; [|discriminate]. simpl. intros E2; inv E2.
+  destruct (clr_spec D s0) as [_ [Hk [Hi Hm]]]. destruct (H _ _ E) as [H1 H2]. rewrite Hk.
+  split; intros x Hx; [apply (H1 x), (Hi x Hx)|apply (H2 x), (Hm x Hx)].
+Qed.
+
+Lemma rm_no_empty_name : forall D c, no_empty_name c -> no_empty_name (rm D c).
+Proof. intros D c H. unfold no_empty_name in *. rewrite rm_has_state, H. apply andb_false_r. Qed.
+
+Theorem rm_sound : forall D c, sound c -> fields_ok c -> closed c D -> sound (rm D c).
+Proof.
+  intros D c HS HF HD.
+  assert (HDn : forall x q, lookup x (c_parent c) = Some (Some q) -> D x = false -> D q = false).
+  { intros x q Hp Hx. destruct (D q) eqn:E; [|reflexivity]. rewrite (HD _ _ Hp E) in Hx. discriminate. }
+  constructor.
+  - unfold rm. cbn [c_states]. apply NoDup_map_filter. rewrite keys_mapv. apply (sd_nd_states c HS).
+  - unfold rm. cbn [c_parent]. apply NoDup_map_filter. apply (sd_nd_parent c HS).
+  - unfold rm. cbn [c_children]. apply NoDup_map_filter. rewrite keys_mapv. apply (sd_nd_children c HS).
+  - intros k s. rewrite rm_states. destruct (D k); [discriminate|].
+    destruct (lookup k (c_states c)) as [s0|] eqn:E; [|discriminate]. simpl. intros E2; inv E2.
+    destruct (clr_spec D s0) as [-> _]. apply (sd_keyname c HS _ _ E).
+  - intros k. rewrite rm_parent, rm_has_state. destruct (D k); simpl; [split; [congruence|discriminate]|].
+    apply (sd_pkeys c HS).
+  - intros k. rewrite rm_children, rm_has_state. simpl. destruct (D k); simpl; [split; [congruence|discriminate]|].
+    rewrite <- (sd_ckeys c HS). destruct (olookup (Some k) (c_children c)); simpl; split; congruence.
+  - rewrite rm_children. simpl. pose proof (sd_ctop c HS). destruct (olookup None (c_children c)); simpl; congruence.
+  - intros n p. rewrite rm_parent. destruct (D n) eqn:Dn; [discriminate|]. intros Hp.
+    destruct (sd_pc c HS _ _ Hp) as [H1 [l [H2 H3]]]. split.
+    + intros q ->. rewrite rm_has_state, (H1 q eq_refl), (HDn _ _ Hp Dn). reflexivity.
+    + exists (filter (fun x => negb (D x)) l). rewrite rm_children, H2.
+      assert (E : oin D p = false) by (destruct p as [q|]; [apply (HDn _ _ Hp Dn)|reflexivity]).
+      rewrite E. split; [reflexivity|]. rewrite count_occ_filter, Dn. exact H3.
+  - intros k l ch. rewrite rm_children, rm_parent. destruct (oin D k) eqn:Dk; [discriminate|].
+    destruct (olookup k (c_children c)) as [l0|] eqn:E; [|discriminate]. simpl. intros E2; inv E2.
+    intros Hin. apply filter_In in Hin. destruct Hin as [Hin Hd]. apply negb_true_iff in Hd. rewrite Hd.
+    apply (sd_cp c HS _ _ _ E Hin).
+  - intros l. rewrite rm_children. simpl.
+    destruct (olookup None (c_children c)) as [l0|] eqn:E; [|discriminate]. simpl. intros E2; inv E2.
+    pose proof (sd_top c HS _ E). pose proof (filter_length_le (fun x => negb (D x)) l0). lia.
+  - destruct (sd_acyc c HS) as [rank Hr]. exists rank. intros n q. rewrite rm_parent.
+    destruct (D n); [discriminate|]. apply Hr.
+  - intros t Hin. apply rm_transitions in Hin. destruct Hin as [Hin [Hs Ht]].
+    destruct (sd_trans c HS t Hin) as [[s [H1 H2]] H3]. split.
+    + exists (clr D s). rewrite rm_states, Hs, H1. split; [reflexivity|].
+      destruct (clr_spec D s) as [_ [-> _]]. exact H2.
+    + intros tg E. rewrite E in Ht. simpl in Ht. rewrite rm_has_state, Ht, (H3 tg E). reflexivity.
+  - intros k s. rewrite rm_states. destruct (D k); [discriminate|].
+    destruct (lookup k (c_states c)) as [s0|] eqn:E; [|discriminate]. simpl. intros E2; inv E2.
+    destruct (clr_spec D s0) as [_ [_ [Hi Hm]]]. destruct (sd_refs c HS _ _ E) as [H1 H2].
+    destruct (HF _ _ E) as [F1 F2].
+    split; intros x Hx; rewrite rm_has_state.
+    + destruct (Hi x Hx) as [Ha Hb]. rewrite (Hb (F1 x Ha)), (H1 x Ha). reflexivity.
+    + destruct (Hm x Hx) as [Ha Hb]. rewrite (Hb (F2 x Ha)), (H2 x Ha). reflexivity.
+  - intros k s i. rewrite rm_states. destruct (D k) eqn:Dk; [discriminate|].
+    destruct (lookup k (c_states c)) as [s0|] eqn:E; [|discriminate]. simpl. intros E2; inv E2.
+    destruct (clr_spec D s0) as [_ [Hk [Hi _]]]. rewrite Hk. intros Hkind Hini.
+    apply truthy_Some in Hini. destruct Hini as [Hini Hine]. destruct (Hi i Hini) as [Ha Hb].
+    specialize (Hb Hkind).
+    destruct (sd_vinit c HS k s0 i E Hkind) as [H1 H2]; [rewrite Ha; apply truthy_nonempty; exact Hine|].
+    rewrite rm_has_state, Hb, H1. split; [reflexivity|]. apply rm_children_for; auto.
+  - intros k s m. rewrite rm_states. destruct (D k) eqn:Dk; [discriminate|].
+    destruct (lookup k (c_states c)) as [s0|] eqn:E; [|discriminate]. simpl. intros E2; inv E2.
+    destruct (clr_spec D s0) as [_ [Hk [_ Hm]]]. rewrite Hk. intros Hkind Hmem.
+    destruct (Hm m Hmem) as [Ha Hb]. specialize (Hb Hkind).
+    destruct (sd_vmem c HS k s0 m E Hkind Ha) as [H1 [H2 [p [H3 H4]]]].
+    split; [exact H1|]. rewrite rm_has_state, Hb, H2. split; [reflexivity|]. exists p.
+    assert (Hpk : lookup k (c_parent c) = Some (Some p)).
+    { unfold parent_for in H3. destruct (lookup k (c_parent c)) as [pp|]; [congruence|discriminate]. }
+    split.
+    + unfold parent_for. rewrite rm_parent, Dk, Hpk. reflexivity.
+    + apply rm_children_for; [apply (HDn _ _ Hpk Dk)|auto].
+Qed.
+
+(* ------------------------------------------------------------------ ancestors in rm D c *)
+Lemma rm_anc : forall D c x y, anc (rm D c) x y -> anc c x y /\ D x = false.
+Proof.
+  intros D c x y H. induction H as [x a H|x q a H H' IH]; rewrite rm_parent in H;
+    destruct (D x) eqn:Dx; try discriminate.
+  - split; [apply anc_parent; exact H|reflexivity].
+  - split; [eapply anc_step; [exact H|apply IH]|reflexivity].
+Qed.
+
+Lemma anc_rm : forall D c, closed c D -> forall x y, anc c x y -> D x = false -> anc (rm D c) x y.
+Proof.
+  intros D c HD x y H. induction H as [x a H|x q a H H' IH]; intros Dx.
+  - apply anc_parent. rewrite rm_parent, Dx. exact H.
+  - eapply anc_step; [rewrite rm_parent, Dx; exact H|]. apply IH.
+    destruct (D q) eqn:E; [|reflexivity]. rewrite (HD _ _ H E) in Dx. discriminate.
+Qed.
+
+Lemma subtree_closed : forall c (D : name -> bool) (P : name -> Prop),
+  (forall x, D x = true <-> exists r, P r /\ (x = r \/ anc c x r)) -> closed c D.
+Proof.
+  intros c D P H x q Hp Hq. apply H. apply H in Hq. destruct Hq as [r [Hr [->|Ha]]]; exists r; split; auto.
+  - right. apply anc_parent. exact Hp.
+  - right. eapply anc_step; eauto.
+Qed.
+
+(* ------------------------------------------------------------------ remove_one is rm {n} *)
+Lemma clear_refs_clr : forall n s, clear_refs n s = clr (fun x => str_eqb x n) s.
+Proof.
+  intros n s. unfold clear_refs, clr.
+  assert (E : forall o, ostr_eqb o (Some n) = oin (fun x => str_eqb x n) o) by (intros [x|]; reflexivity).
+  rewrite !E. reflexivity.
+Qed.
+
+Lemma remove_one_rm : forall c n, sound c -> has_state c n = true ->
+  remove_one c n = (rm (fun x => str_eqb x n) c, EOk).
+Proof.
+  intros c n HS Hn. unfold remove_one.
+  destruct (sound_state_parent c HS n Hn) as [p Hp]. rewrite Hp.
+  destruct (sd_pc c HS _ _ Hp) as [Hpq [l [Hl Hcnt]]].
+  assert (Hpn : p <> Some n).
+  { intros ->. destruct (sd_acyc c HS) as [rank Hr]. specialize (Hr _ _ Hp). lia. }
+  rewrite olookup_oremove_neq, Hl by exact Hpn.
+  pose proof (sd_nd_children c HS) as Hndc.
+  unfold rm. f_equal. f_equal.
+  - rewrite dremove_filter by (rewrite keys_mapv; apply (sd_nd_states c HS)).
+    apply f_equal. apply map_ext. intros [k s]. simpl. rewrite clear_refs_clr. reflexivity.
+  - apply dremove_filter. apply (sd_nd_parent c HS).
+  - rewrite (filter_map_comm (fun kv : option name * list name => (fst kv, filter (fun x => negb (str_eqb x n)) (snd kv)))). simpl.
+    rewrite oremove_filter by exact Hndc.
+    rewrite (filter_ext_all (fun kv : option name * list name => negb (opt_eqb str_eqb (fst kv) (Some n)))
+                            (fun x => negb (oin (fun x0 => str_eqb x0 n) (fst x))))
+      by (intros [[k|] v]; reflexivity).
+    set (d := filter (fun x : option name * list name => negb (oin (fun x0 => str_eqb x0 n) (fst x))) (c_children c)).
+    assert (Hndd : NoDup (map fst d)) by (apply NoDup_map_filter; exact Hndc).
+    assert (Hind : In (p, l) d).
+    { apply filter_In. split; [apply olookup_In; exact Hl|]. simpl.
+      destruct p as [q|]; simpl; [|reflexivity]. apply negb_true_iff, seqb_neq. congruence. }
+    rewrite oset_map; [|exact Hndd|change p with (fst (p, l)); apply in_map; exact Hind].
+    apply map_ext_in. intros [k lk] Hk. simpl.
+    assert (Hk' : olookup k (c_children c) = Some lk).
+    { apply In_olookup; [exact Hndc|]. apply filter_In in Hk. apply Hk. }
+    destruct (oeqbP k p) as [->|Hkp].
+    + rewrite Hl in Hk'. inv Hk'. f_equal. apply remove_first_filter.
+      apply (sound_children_NoDup c HS _ _ Hl).
+    + f_equal. symmetry. apply filter_true. intros x Hx. apply negb_true_iff, seqb_neq. intros ->.
+      rewrite (sd_cp c HS _ _ _ Hk' Hx) in Hp. congruence.
+Qed.
+
+(* ------------------------------------------------------------------ the recursion of remove_state *)
+Definition corank (c : chart) (h : name -> nat) : Prop :=
+  forall x q, lookup x (c_parent c) = Some (Some q) -> h x < h q.
+
+Section RemoveLoop.
+  Variable f : nat.
+  Fixpoint remove_loop (c : chart) (chs : list name) : chart * eres :=
+    match chs with
+    | [] => (c, EOk)
+    | ch :: rest =>
+        match remove_state_fuel f c ch with
+        | (c', EOk) => remove_loop c' rest
+        | (c', e) => (c', e)
+        end
+    end.
+End RemoveLoop.
+
+Lemma remove_state_fuel_S : forall f c n,
+  remove_state_fuel (S f) c n =
+  if negb (has_state c n) then (c, EStatechartError) else
+  match remove_loop f c (children_for c n) with
+  | (c', EOk) => remove_one c' n
+  | (c', e) => (c', e)
+  end.
+Proof. reflexivity. Qed.
+
+Definition subtree_spec (c : chart) (roots : list name) (D : name -> bool) : Prop :=
+  forall x, D x = true <-> exists r, In r roots /\ (x = r \/ anc c x r).
+
+Definition remove_ok (f : nat) : Prop :=
+  forall c n h, sound c -> fields_ok c -> has_state c n = true -> corank c h -> h n < f ->
+    exists D, subtree_spec c [n] D /\ remove_state_fuel f c n = (rm D c, EOk).
+
+Lemma corank_rm : forall D c h, corank c h -> corank (rm D c) h.
+Proof. intros D c h H x q. rewrite rm_parent. destruct (D x); [discriminate|apply H]. Qed.
+
+Lemma remove_loop_spec : forall f, remove_ok f ->
+  forall chs c h, sound c -> fields_ok c -> corank c h ->
+    (forall ch, In ch chs -> has_state c ch = true /\ h ch < f) ->
+    antichain c chs ->
+    exists D, subtree_spec c chs D /\ remove_loop f c chs = (rm D c, EOk).
+Proof.
+  intros f IHf chs; induction chs as [|ch chs IH]; intros c h HS HF Hh Hst [Hnd Han].
+  - exists (fun _ => false). split.
+    + intros x. split; [discriminate|intros [r [[] _]]].
+    + simpl. rewrite rm_false by reflexivity. reflexivity.
+  - inv Hnd.
+    destruct (Hst ch (or_introl eq_refl)) as [Hch Hlt].
+    destruct (IHf c ch h HS HF Hch Hh Hlt) as [D1 [HD1 E1]].
+    assert (Hcl : closed c D1) by (apply (subtree_closed c D1 (fun r => In r [ch])); exact HD1).
+    pose proof (rm_sound D1 c HS HF Hcl) as HS2.
+    assert (Hout : forall x, In x chs -> D1 x = false).
+    { intros x Hx. destruct (D1 x) eqn:E; [|reflexivity]. exfalso.
+      apply HD1 in E. destruct E as [r [[<-|[]] [->|Ha]]]; [auto|].
+      apply (Han x ch); [right; exact Hx|left; reflexivity|exact Ha]. }
+    destruct (IH (rm D1 c) h HS2 (rm_fields_ok D1 c HF) (corank_rm D1 c h Hh)) as [D2 [HD2 E2]].
+    + intros x Hx. destruct (Hst x (or_intror Hx)) as [Hs1 Hs2].
+      rewrite rm_has_state, (Hout x Hx), Hs1. split; [reflexivity|exact Hs2].
+    + split; [assumption|]. intros x y Hx Hy Ha. apply rm_anc in Ha.
+      apply (Han x y); [right; exact Hx|right; exact Hy|apply Ha].
+    + exists (fun x => D1 x || D2 x). split.
+      * intros x. rewrite orb_true_iff, (HD1 x), (HD2 x). split.
+        -- intros [[r [[<-|[]] Hr]]|[r [Hr [->|Ha]]]].
+           ++ exists ch. split; [left; reflexivity|exact Hr].
+           ++ exists r. split; [right; exact Hr|left; reflexivity].
+           ++ exists r. split; [right; exact Hr|right; apply (rm_anc _ _ _ _ Ha)].
+        -- intros [r [[<-|Hr] Hx]].
+           ++ left. exists ch. split; [left; reflexivity|exact Hx].
+           ++ destruct (D1 x) eqn:Dx.
+              ** left. apply HD1. exact Dx.
+              ** right. exists r. split; [exact Hr|]. destruct Hx as [->|Ha]; [left; reflexivity|].
+                 right. apply anc_rm; assumption.
+      * simpl. rewrite E1, E2, rm_rm. reflexivity.
+Qed.
+
+Lemma anc_via_child : forall c, sound c -> forall x n,
+  anc c x n <-> exists ch, In ch (children_for c n) /\ (x = ch \/ anc c x ch).
+Proof.
+  intros c HS x n. split.
+  - intros H. induction H as [x a H|x q a H H' IH].
+    + exists x. split; [apply sound_parent_child; assumption|left; reflexivity].
+    + destruct IH as [ch [Hch [->|Ha]]]; exists ch; (split; [exact Hch|right]).
+      * apply anc_parent; exact H.
+      * eapply anc_step; eauto.
+  - intros [ch [Hch [->|Ha]]].
+    + apply anc_parent. apply sound_child_parent; assumption.
+    + eapply anc_trans; [exact Ha|]. apply anc_parent. apply sound_child_parent; assumption.
+Qed.
+
+Lemma children_antichain : forall c, sound c -> forall n, antichain c (children_for c n).
+Proof.
+  intros c HS n. split; [apply sound_children_for_NoDup; exact HS|].
+  intros x y Hx Hy Ha. destruct (anc_inv _ _ _ Ha) as [q [Hq Hor]].
+  rewrite (sound_child_parent c HS _ _ Hx) in Hq. inv Hq.
+  pose proof (anc_parent c _ _ (sound_child_parent c HS _ _ Hy)) as Hyq.
+  destruct Hor as [->|Hor]; [apply (sound_anc_irrefl c HS y); exact Hyq|].
+  apply (sound_anc_irrefl c HS q). eapply anc_trans; eauto.
+Qed.
+
+Lemma remove_state_fuel_ok : forall f, remove_ok f.
+Proof.
+  induction f as [|f IHf]; intros c n h HS HF Hn Hh Hlt; [lia|].
+  rewrite remove_state_fuel_S, Hn. cbn [negb].
+  destruct (remove_loop_spec f IHf (children_for c n) c h HS HF Hh) as [D1 [HD1 E1]].
+  - intros ch Hch. split.
+    + unfold children_for in Hch. destruct (olookup (Some n) (c_children c)) as [l|] eqn:E; [|destruct Hch].
+      apply (sound_child_state c HS _ _ _ E Hch).
+    + specialize (Hh _ _ (sound_child_parent c HS _ _ Hch)). lia.
+  - apply children_antichain; exact HS.
+  - rewrite E1.
+    assert (HD1' : forall x, D1 x = true <-> anc c x n).
+    { intros x. rewrite (HD1 x), (anc_via_child c HS x n). reflexivity. }
+    assert (Hcl : closed c D1) by (apply (subtree_closed c D1 (fun r => In r (children_for c n))); exact HD1).
+    assert (Dn : D1 n = false).
+    { destruct (D1 n) eqn:E; [|reflexivity]. apply HD1' in E. destruct (sound_anc_irrefl c HS n E). }
+    rewrite remove_one_rm; [|apply rm_sound; assumption|rewrite rm_has_state, Dn, Hn; reflexivity].
+    rewrite rm_rm. exists (fun x => D1 x || str_eqb x n). split; [|reflexivity].
+    intros x. rewrite orb_true_iff, HD1', seqb_eq. split.
+    + intros [H|H]; exists n; (split; [left; reflexivity|auto]).
+    + intros [r [[<-|[]] [H|H]]]; auto.
+Qed.
+
+(* ------------------------------------------------------------------ the fuel of remove_state suffices *)
+Lemma descendants_NoDup : forall c, sound c -> forall n, NoDup (descendants_for c n).
+Proof.
+  intros c HS n. unfold descendants_for.
+  assert (Hac : antichain c [n]).
+  { split; [constructor; [intros []|constructor]|].
+    intros a b [<-|[]] [<-|[]]. apply sound_anc_irrefl; assumption. }
+  pose proof (bfs_NoDup c HS (S (length (c_states c))) [n] Hac) as Hnd.
+  apply NoDup_app_r in Hnd. exact Hnd.
+Qed.
+
+Lemma anc_has_state : forall c, sound c -> forall x a, anc c x a -> has_state c x = true.
+Proof.
+  intros c HS x a H. destruct (anc_inv _ _ _ H) as [q [Hq _]]. apply (sd_pkeys c HS). congruence.
+Qed.
+
+Lemma descendants_length : forall c, sound c -> forall n,
+  length (descendants_for c n) <= length (c_states c).
+Proof.
+  intros c HS n. rewrite <- (map_length fst (c_states c)).
+  apply NoDup_incl_length; [apply descendants_NoDup; exact HS|].
+  intros x Hx. apply has_state_In. apply (descendants_for_spec c HS) in Hx.
+  eapply anc_has_state; eauto.
+Qed.
+
+Lemma descendants_corank : forall c, sound c -> corank c (fun x => length (descendants_for c x)).
+Proof.
+  intros c HS x q Hp.
+  assert (Hnd : NoDup (x :: descendants_for c x)).
+  { constructor; [|apply descendants_NoDup; exact HS].
+    rewrite (descendants_for_spec c HS). apply sound_anc_irrefl; exact HS. }
+  assert (Hincl : incl (x :: descendants_for c x) (descendants_for c q)).
+  { intros y [<-|Hy]; apply (descendants_for_spec c HS).
+    - apply anc_parent; exact Hp.
+    - apply (descendants_for_spec c HS) in Hy. eapply anc_trans; [exact Hy|apply anc_parent; exact Hp]. }
+  pose proof (NoDup_incl_length Hnd Hincl) as Hlen. simpl in Hlen. lia.
+Qed.
+
+Definition subtree_b (c : chart) (n : name) : name -> bool :=
+  fun x => mem x (n :: descendants_for c n).
+
+Lemma subtree_b_spec : forall c, sound c -> forall n x,
+  subtree_b c n x = true <-> x = n \/ anc c x n.
+Proof.
+  intros c HS n x. unfold subtree_b. rewrite mem_In. simpl. rewrite (descendants_for_spec c HS).
+  split; intros [H|H]; auto.
+Qed.
+
+(* remove_state n on a sound chart: either n is unknown and nothing happens (StatechartError), or
+   the result is exactly the chart without subtree+(n); the fuel never runs out and no KeyError
+   escapes *)
+Theorem remove_state_spec : forall c n, sound c -> fields_ok c ->
+  remove_state c n =
+  if has_state c n then (rm (subtree_b c n) c, EOk) else (c, EStatechartError).
+Proof.
+  intros c n HS HF. unfold remove_state. destruct (has_state c n) eqn:Hn.
+  - destruct (remove_state_fuel_ok (S (length (c_states c))) c n (fun x => length (descendants_for c x))
+                HS HF Hn (descendants_corank c HS)) as [D [HD E]].
+    + pose proof (descendants_length c HS n). lia.
+    + rewrite E. f_equal. apply rm_ext. intros x.
+      destruct (D x) eqn:Dx; destruct (subtree_b c n x) eqn:Sx; try reflexivity; exfalso.
+      * apply HD in Dx. destruct Dx as [r [[<-|[]] Hr]].
+        apply (subtree_b_spec c HS) in Hr. congruence.
+      * apply (subtree_b_spec c HS) in Sx.
+        assert (D x = true) by (apply HD; exists n; split; [left; reflexivity|exact Sx]). congruence.
+  - rewrite remove_state_fuel_S, Hn. reflexivity.
+Qed.
+
+Lemma subtree_b_closed : forall c, sound c -> forall n, closed c (subtree_b c n).
+Proof.
+  intros c HS n. apply (subtree_closed c _ (fun r => r = n)). intros x.
+  rewrite (subtree_b_spec c HS). split; [intros H; exists n; auto|intros [r [-> H]]; exact H].
+Qed.
+
+Theorem remove_state_atomic : forall c n c' r, sound c -> fields_ok c ->
+  remove_state c n = (c', r) -> r = EStatechartError \/ r = EValueError -> c' = c.
+Proof.
+  intros c n c' r HS HF H Hr. rewrite (remove_state_spec c n HS HF) in H.
+  destruct (has_state c n); inv H; [destruct Hr; discriminate|reflexivity].
+Qed.
+
+Theorem remove_state_no_keyerror : forall c n c', sound c -> fields_ok c ->
+  remove_state c n = (c', EKeyError) -> False.
+Proof.
+  intros c n c' HS HF H. rewrite (remove_state_spec c n HS HF) in H.
+  destruct (has_state c n); discriminate.
+Qed.
+
+Theorem remove_state_sound : forall c n c', sound c -> fields_ok c ->
+  remove_state c n = (c', EOk) -> sound c' /\ fields_ok c'.
+Proof.
+  intros c n c' HS HF H. rewrite (remove_state_spec c n HS HF) in H.
+  destruct (has_state c n); inv H.
+  split; [apply rm_sound; [assumption|assumption|apply subtree_b_closed; assumption]|apply rm_fields_ok; assumption].
+Qed.
+
+(* without soundness remove_state is not atomic: a children list that names a missing state makes
+   the recursion fail after the first children have been removed (not reachable through the API) *)
+Definition st0 (n : name) (k : kind) : state := mkState n k None None None None [] [] [].
+Definition unsound_chart : chart :=
+  mkChart "u" None None
+    [("a", st0 "a" KCompound); ("b", st0 "b" KBasic)]
+    [("a", None); ("b", Some "a")]
+    [(None, ["a"]); (Some "a", ["b"; "ghost"]); (Some "b", [])]
+    [].
+
+Lemma remove_state_atomic_unsound_refuted :
+  exists c n c' r, remove_state c n = (c', r) /\ r = EStatechartError /\ c' <> c.
+Proof.
+  exists unsound_chart, "a".
+  eexists. eexists. split; [vm_compute; reflexivity|]. split; [reflexivity|]. intros E. discriminate E.
+Qed.
+
+(* ================================================================== 5. rename_state *)
+Definition ren (old new : name) : name -> name := fun x => if str_eqb x old then new else x.
+
+Definition map_state (r : name -> name) (s : state) : state :=
+  mkState (r (s_name s)) (s_kind s) (option_map r (s_initial s)) (option_map r (s_memory s))
+          (s_on_entry s) (s_on_exit s) (s_pre s) (s_post s) (s_inv s).
+
+(* every transition keeps its shape: an internal transition (target None) stays internal *)
+Definition map_trans (r : name -> name) (t : transition) : transition :=
+  mkTrans (r (t_source t)) (option_map r (t_target t)) (t_event t) (t_guard t) (t_action t)
+          (t_priority t) (t_pre t) (t_post t) (t_inv t).
+
+Definition map_chart (r : name -> name) (c : chart) : chart :=
+  mkChart (c_name c) (c_description c) (c_preamble c)
+    (map (fun kv => (r (fst kv), map_state r (snd kv))) (c_states c))
+    (map (fun kv => (r (fst kv), option_map r (snd kv))) (c_parent c))
+    (map (fun kv => (option_map r (fst kv), map r (snd kv))) (c_children c))
+    (map (map_trans r) (c_transitions c)).
+
+Definition rn_trans (old new : name) (t : transition) : transition :=
+  let t1 := if str_eqb (t_source t) old then set_source t new else t in
+  if ostr_eqb (t_target t1) (Some old) then set_target t1 (Some new) else t1.
+
+Lemma rn_trans_map : forall old new t, rn_trans old new t = map_trans (ren old new) t.
+Proof.
+  intros old new [src [tg|] ev g a p pre post iv]; unfold rn_trans, map_trans, ren, set_source, set_target, ostr_eqb;
+    simpl; destruct (str_eqb src old); simpl; try destruct (str_eqb tg old); reflexivity.
+Qed.
+
+Definition rn_parent (old new : name) (p : option name) : option name :=
+  if ostr_eqb p (Some old) then Some new else p.
+
+Lemma rn_parent_map : forall old new p, rn_parent old new p = option_map (ren old new) p.
+Proof.
+  intros old new [p|]; unfold rn_parent, ren, ostr_eqb; simpl; [|reflexivity].
+  destruct (str_eqb p old); reflexivity.
+Qed.
+
+Lemma rename_refs_map : forall old new s,
+  (forall i, s_initial s = Some i -> s_kind s = KCompound) ->
+  (forall m, s_memory s = Some m -> is_history (s_kind s) = true) ->
+  rename_refs old new s =
+  mkState (s_name s) (s_kind s) (option_map (ren old new) (s_initial s)) (option_map (ren old new) (s_memory s))
+          (s_on_entry s) (s_on_exit s) (s_pre s) (s_post s) (s_inv s).
+Proof.
+  intros old new [nm k i m en ex pre post iv] Hi Hm. simpl in Hi, Hm.
+  destruct k; destruct i as [i|]; destruct m as [m|];
+    try (specialize (Hi _ eq_refl); discriminate); try (specialize (Hm _ eq_refl); discriminate);
+    unfold rename_refs, ren, ostr_eqb, set_initial, set_memory_; simpl;
+    try destruct (str_eqb i old); simpl; try destruct (str_eqb m old); simpl; reflexivity.
+Qed.
+
+(* the chart built by rename_state when it succeeds with old <> new *)
+Definition renamed (c : chart) (old new : name) (st : state) (po : option name) (l lo : list name) : chart :=
+  mkChart (c_name c) (c_description c) (c_preamble c)
+    (dset new (set_name (rename_refs old new st) new)
+          (dremove old (map (fun kv => (fst kv, rename_refs old new (snd kv))) (c_states c))))
+    (dset new po (dremove old (map (fun kv => (fst kv, rn_parent old new (snd kv))) (c_parent c))))
+    (oset (Some new) lo (oremove (Some old) (oset po (remove_first old l ++ [new]) (c_children c))))
+    (map (rn_trans old new) (c_transitions c)).
+
+Lemma rename_state_eq : forall c old new,
+  rename_state c old new =
+  if str_eqb old new then (c, EOk) else
+  if has_state c new then (c, EStatechartError) else
+  match lookup old (c_states c) with
+  | None => (c, EStatechartError)
+  | Some st =>
+      let sts := map (fun kv => (fst kv, rename_refs old new (snd kv))) (c_states c) in
+      let par := map (fun kv => (fst kv, rn_parent old new (snd kv))) (c_parent c) in
+      let pn := match lookup old par with Some p => p | None => None end in
+      let ch1 := match olookup pn (c_children c) with
+                 | Some l => oset pn (remove_first old l ++ [new]) (c_children c)
+                 | None => c_children c
+                 end in
+      let st' := match lookup old sts with Some s => s | None => st end in
+      let chl := match olookup (Some old) ch1 with Some l => l | None => [] end in
+      (mkChart (c_name c) (c_description c) (c_preamble c)
+         (dset new (set_name st' new) (dremove old sts))
+         (dset new pn (dremove old par))
+         (oset (Some new) chl (oremove (Some old) ch1))
+         (map (rn_trans old new) (c_transitions c)), EOk)
+  end.
+Proof. reflexivity. Qed.
+
+Lemma rename_state_ok : forall c old new st, sound c ->
+  old <> new -> has_state c new = false -> lookup old (c_states c) = Some st ->
+  exists po l lo,
+    lookup old (c_parent c) = Some po /\ po <> Some old /\ po <> Some new /\
+    olookup po (c_children c) = Some l /\ count_occ string_dec l old = 1 /\
+    olookup (Some old) (c_children c) = Some lo /\
+    rename_state c old new = (renamed c old new st po l lo, EOk).
+Proof.
+  intros c old new st HS Hne Hnew Hst.
+  assert (Hold : has_state c old = true) by (unfold has_state; rewrite Hst; reflexivity).
+  destruct (sound_state_parent c HS old Hold) as [po Hpo].
+  destruct (sd_pc c HS _ _ Hpo) as [Hpq [l [Hl Hcnt]]].
+  destruct (sound_state_children c HS old Hold) as [lo Hlo].
+  assert (Hpo1 : po <> Some old).
+  { intros ->. destruct (sd_acyc c HS) as [rank Hr]. specialize (Hr _ _ Hpo). lia. }
+  assert (Hpo2 : po <> Some new).
+  { intros ->. rewrite (Hpq new eq_refl) in Hnew. discriminate. }
+  exists po, l, lo. repeat (split; [assumption|]).
+  rewrite rename_state_eq. apply seqb_neq in Hne. rewrite Hne, Hnew, Hst. cbv zeta.
+  rewrite !lookup_mapv, Hpo, Hst. cbn [option_map].
+  assert (E : rn_parent old new po = po).
+  { unfold rn_parent. destruct (ostr_eqb po (Some old)) eqn:E; [|reflexivity]. apply ostr_eqb_eq in E. congruence. }
+  rewrite E, Hl, olookup_oset.
+  destruct (oeqbP (Some old) po) as [E2|_]; [congruence|]. rewrite Hlo. reflexivity.
+Qed.
+
+Lemma remove_first_length : forall k l, In k l -> S (length (remove_first k l)) = length l.
+Proof.
+  intros k l; induction l as [|y l IH]; simpl; intros H; [destruct H|].
+  destruct (seqbP k y) as [->|Hn]; [reflexivity|]. simpl. f_equal. apply IH.
+  destruct H; [congruence|assumption].
+Qed.
+
+Section Renamed.
+  Variables (c : chart) (old new : name) (st : state) (po : option name) (l lo : list name).
+  Hypothesis HS : sound c.
+  Hypothesis HF : fields_ok c.
+  Hypothesis Hne : old <> new.
+  Hypothesis Hnew : has_state c new = false.
+  Hypothesis Hst : lookup old (c_states c) = Some st.
+  Hypothesis Hpo : lookup old (c_parent c) = Some po.
+  Hypothesis Hpo1 : po <> Some old.
+  Hypothesis Hpo2 : po <> Some new.
+  Hypothesis Hl : olookup po (c_children c) = Some l.
+  Hypothesis Hcnt : count_occ string_dec l old = 1.
+  Hypothesis Hlo : olookup (Some old) (c_children c) = Some lo.
+
+  Let c' := renamed c old new st po l lo.
+  Let r := ren old new.
+  Let rr := rename_refs old new.
+
+  Lemma rnd_states : forall k,
+    lookup k (c_states c') =
+    if str_eqb k new then Some (set_name (rr st) new)
+    else if str_eqb k old then None else option_map rr (lookup k (c_states c)).
+  Proof.
+    intros k. unfold c', renamed. cbn [c_states]. rewrite lookup_dset, lookup_dremove, lookup_mapv.
+    - reflexivity.
+    - rewrite keys_mapv. apply (sd_nd_states c HS).
+  Qed.
+
+  Lemma rnd_parent : forall k,
+    lookup k (c_parent c') =
+    if str_eqb k new then Some po
+    else if str_eqb k old then None else option_map (rn_parent old new) (lookup k (c_parent c)).
+  Proof.
+    intros k. unfold c', renamed. cbn [c_parent]. rewrite lookup_dset, lookup_dremove, lookup_mapv.
+    - reflexivity.
+    - rewrite keys_mapv. apply (sd_nd_parent c HS).
+  Qed.
+
+  Lemma rnd_children : forall k,
+    olookup k (c_children c') =
+    if opt_eqb str_eqb k (Some new) then Some lo
+    else if opt_eqb str_eqb k (Some old) then None
+    else if opt_eqb str_eqb k po then Some (remove_first old l ++ [new]) else olookup k (c_children c).
+  Proof.
+    intros k. unfold c', renamed. cbn [c_children]. rewrite olookup_oset, olookup_oremove, olookup_oset.
+    - reflexivity.
+    - apply NoDup_keys_oset. apply (sd_nd_children c HS).
+  Qed.
+
+  Lemma rnd_has_state : forall k,
+    has_state c' k = str_eqb k new || (negb (str_eqb k old) && has_state c k).
+  Proof.
+    intros k. unfold has_state. rewrite rnd_states.
+    destruct (str_eqb k new); [reflexivity|]. destruct (str_eqb k old); [reflexivity|].
+    destruct (lookup k (c_states c)); reflexivity.
+  Qed.
+
+  Lemma rnd_state_not_new : forall x, has_state c x = true -> x <> new.
+  Proof. intros x H ->. congruence. Qed.
+
+  Lemma rnd_rr : forall k s, lookup k (c_states c) = Some s ->
+    s_name (rr s) = s_name s /\ s_kind (rr s) = s_kind s /\
+    s_initial (rr s) = option_map r (s_initial s) /\ s_memory (rr s) = option_map r (s_memory s).
+  Proof.
+    intros k s H. destruct (HF _ _ H) as [H1 H2]. unfold rr. rewrite (rename_refs_map old new s H1 H2).
+    repeat split.
+  Qed.
+
+  Lemma rnd_old_state : has_state c old = true.
+  Proof. unfold has_state. rewrite Hst. reflexivity. Qed.
+
+  Lemma rnd_r_state : forall x, has_state c x = true -> has_state c' (r x) = true.
+  Proof.
+    intros x H. rewrite rnd_has_state. unfold r, ren. destruct (seqbP x old) as [->|Hx].
+    - rewrite seqb_refl. reflexivity.
+    - destruct (seqbP x old); [congruence|]. rewrite H. simpl. apply orb_true_r.
+  Qed.
+
+  Lemma rnd_r_inj : forall a b, has_state c a = true -> has_state c b = true -> r a = r b -> a = b.
+  Proof.
+    intros a b Ha Hb. unfold r, ren. pose proof (rnd_state_not_new _ Ha). pose proof (rnd_state_not_new _ Hb).
+    destruct (seqbP a old), (seqbP b old); congruence.
+  Qed.
+
+  (* every state of c' is the image of a state of c *)
+  Lemma rnd_back : forall k s, lookup k (c_states c') = Some s ->
+    exists k0 s0, lookup k0 (c_states c) = Some s0 /\ k = r k0 /\ s_name s = k /\
+      s_kind s = s_kind s0 /\
+      s_initial s = option_map r (s_initial s0) /\ s_memory s = option_map r (s_memory s0).
+  Proof.
+    intros k s. rewrite rnd_states. destruct (seqbP k new) as [->|Hk].
+    - intros E; inv E. exists old, st. destruct (rnd_rr _ _ Hst) as [_ [H2 [H3 H4]]].
+      split; [exact Hst|]. split; [unfold r, ren; rewrite seqb_refl; reflexivity|].
+      simpl. auto.
+    - destruct (seqbP k old) as [->|Hk2]; [discriminate|].
+      destruct (lookup k (c_states c)) as [s0|] eqn:E; [|discriminate]. simpl. intros E2; inv E2.
+      exists k, s0. destruct (rnd_rr _ _ E) as [H1 [H2 [H3 H4]]].
+      split; [exact E|]. split; [unfold r, ren; destruct (seqbP k old); congruence|].
+      split; [rewrite H1; apply (sd_keyname c HS _ _ E)|]. auto.
+  Qed.
+
+  Lemma rnd_children_for : forall y x, has_state c y = true ->
+    In x (children_for c y) -> In (r x) (children_for c' (r y)).
+  Proof.
+    intros y x Hy. unfold children_for.
+    destruct (olookup (Some y) (c_children c)) as [ly|] eqn:Ey; [|intros []]. intros Hx.
+    pose proof (sd_cp c HS _ _ _ Ey Hx) as Hpx.
+    pose proof (rnd_state_not_new _ Hy) as Hyn.
+    rewrite rnd_children. unfold r, ren. destruct (seqbP y old) as [->|Hyo].
+    - rewrite oeqb_refl. assert (ly = lo) by congruence. subst ly.
+      destruct (seqbP x old) as [->|_]; [congruence|exact Hx].
+    - destruct (oeqbP (Some y) (Some new)); [congruence|]. destruct (oeqbP (Some y) (Some old)); [congruence|].
+      destruct (oeqbP (Some y) po) as [E|E].
+      + assert (ly = l) by (rewrite E in Ey; congruence). subst ly. apply in_or_app.
+        destruct (seqbP x old) as [->|Hxo]; [right; left; reflexivity|left].
+        apply In_remove_first_neq; assumption.
+      + rewrite Ey. destruct (seqbP x old) as [->|_]; [congruence|exact Hx].
+  Qed.
+
+  Lemma rnd_parent_r : forall k0 p0, lookup k0 (c_parent c) = Some p0 ->
+    lookup (r k0) (c_parent c') = Some (option_map r p0).
+  Proof.
+    intros k0 p0 H. rewrite rnd_parent. unfold r, ren. destruct (seqbP k0 old) as [->|Hk].
+    - rewrite seqb_refl. assert (p0 = po) by congruence. subst p0. f_equal.
+      destruct po as [q|]; [|reflexivity]. simpl. destruct (seqbP q old); congruence.
+    - assert (k0 <> new).
+      { apply rnd_state_not_new. apply (sd_pkeys c HS). congruence. }
+      destruct (seqbP k0 new); [congruence|]. destruct (seqbP k0 old); [congruence|].
+      rewrite H. simpl. rewrite rn_parent_map. reflexivity.
+  Qed.
+
+  Theorem renamed_sound : old <> "" -> sound c'.
+  Proof.
+    intros Hone.
+    assert (Hrp : rn_parent old new po = po).
+    { unfold rn_parent. destruct (ostr_eqb po (Some old)) eqn:E; [|reflexivity]. apply ostr_eqb_eq in E. congruence. }
+    assert (Hnewl : forall k lk, olookup k (c_children c) = Some lk -> ~ In new lk).
+    { intros k lk Hk Hin. rewrite (sound_child_state c HS _ _ _ Hk Hin) in Hnew. discriminate. }
+    assert (Hpq : forall q, po = Some q -> has_state c q = true).
+    { apply (sd_pc c HS _ _ Hpo). }
+    assert (Hndl : NoDup l) by apply (sound_children_NoDup c HS _ _ Hl).
+    constructor.
+    - unfold c', renamed. cbn [c_states]. apply NoDup_keys_dset, NoDup_keys_dremove.
+      rewrite keys_mapv. apply (sd_nd_states c HS).
+    - unfold c', renamed. cbn [c_parent]. apply NoDup_keys_dset, NoDup_keys_dremove.
+      rewrite keys_mapv. apply (sd_nd_parent c HS).
+    - unfold c', renamed. cbn [c_children]. apply NoDup_keys_oset, NoDup_keys_oremove, NoDup_keys_oset.
+      apply (sd_nd_children c HS).
+    - intros k s H. destruct (rnd_back _ _ H) as [k0 [s0 [_ [_ [H1 _]]]]]. exact H1.
+    - intros k. rewrite rnd_parent, rnd_has_state.
+      destruct (seqbP k new); [split; [reflexivity|discriminate]|].
+      destruct (seqbP k old); simpl; [split; [congruence|discriminate]|].
+      rewrite <- (sd_pkeys c HS). destruct (lookup k (c_parent c)); simpl; split; congruence.
+    - intros k. rewrite rnd_children, rnd_has_state.
+      destruct (oeqbP (Some k) (Some new)) as [E|E].
+      { inv E. rewrite seqb_refl. split; [reflexivity|discriminate]. }
+      destruct (seqbP k new); [congruence|].
+      destruct (oeqbP (Some k) (Some old)) as [E2|E2].
+      { inv E2. rewrite seqb_refl. simpl. split; [congruence|discriminate]. }
+      destruct (seqbP k old); [congruence|]. cbn [negb andb orb].
+      destruct (oeqbP (Some k) po) as [E3|E3]; [|apply (sd_ckeys c HS)].
+      split; [intros _; apply Hpq; auto|discriminate].
+    - rewrite rnd_children. destruct (oeqbP None (Some new)); [discriminate|].
+      destruct (oeqbP None (Some old)); [discriminate|].
+      destruct (oeqbP None po); [discriminate|apply (sd_ctop c HS)].
+    - intros n p. rewrite rnd_parent. destruct (seqbP n new) as [->|Hn].
+      + intros E. assert (Ep : p = po) by congruence. subst p. clear E. split.
+        * intros q Eq. pose proof (rnd_r_state q (Hpq q Eq)) as Hq. unfold r, ren in Hq.
+          destruct (seqbP q old); [congruence|exact Hq].
+        * exists (remove_first old l ++ [new]). rewrite rnd_children.
+          destruct (oeqbP po (Some new)); [congruence|]. destruct (oeqbP po (Some old)); [congruence|].
+          rewrite oeqb_refl. split; [reflexivity|].
+          rewrite count_occ_snoc, count_occ_remove_first_neq by congruence.
+          destruct (string_dec new new); [|congruence].
+          assert (count_occ string_dec l new = 0); [|lia].
+          apply (count_occ_not_In string_dec). apply (Hnewl _ _ Hl).
+      + destruct (seqbP n old) as [->|Hn2]; [discriminate|].
+        destruct (lookup n (c_parent c)) as [p0|] eqn:E; [|discriminate]. simpl. intros E2; inv E2.
+        destruct (sd_pc c HS _ _ E) as [H1 [l0 [H2 H3]]]. rewrite rn_parent_map. split.
+        * intros q Hq. destruct p0 as [q0|]; [|discriminate]. simpl in Hq. inv Hq.
+          apply rnd_r_state. apply H1; reflexivity.
+        * destruct p0 as [q0|]; simpl.
+          -- rewrite rnd_children. unfold ren.
+             assert (Hq0 : q0 <> new) by (apply rnd_state_not_new, H1; reflexivity).
+             destruct (seqbP q0 old) as [->|Hq].
+             ++ rewrite oeqb_refl. exists lo. split; [reflexivity|]. congruence.
+             ++ destruct (oeqbP (Some q0) (Some new)); [congruence|].
+                destruct (oeqbP (Some q0) (Some old)); [congruence|].
+                destruct (oeqbP (Some q0) po) as [Ep|Ep]; [|eauto].
+                assert (l0 = l) by (rewrite Ep in H2; congruence). subst l0.
+                exists (remove_first old l ++ [new]). split; [reflexivity|].
+                rewrite count_occ_snoc, count_occ_remove_first_neq by assumption.
+                destruct (string_dec new n); [congruence|lia].
+          -- rewrite rnd_children. destruct (oeqbP None (Some new)); [discriminate|].
+             destruct (oeqbP None (Some old)); [discriminate|].
+             destruct (oeqbP None po) as [Ep|Ep]; [|eauto].
+             assert (l0 = l) by (rewrite Ep in H2; congruence). subst l0.
+             exists (remove_first old l ++ [new]). split; [reflexivity|].
+             rewrite count_occ_snoc, count_occ_remove_first_neq by assumption.
+             destruct (string_dec new n); [congruence|lia].
+    - intros k l' ch. rewrite rnd_children. destruct (oeqbP k (Some new)) as [->|Hk].
+      + intros E. assert (l' = lo) by congruence. subst l'. clear E.
+        intros Hin. pose proof (sd_cp c HS _ _ _ Hlo Hin) as Hp.
+        pose proof (rnd_parent_r _ _ Hp) as Hp'. unfold r, ren in Hp'. cbn [option_map] in Hp'.
+        rewrite seqb_refl in Hp'. destruct (seqbP ch old); [congruence|exact Hp'].
+      + destruct (oeqbP k (Some old)) as [->|Hk2]; [discriminate|].
+        destruct (oeqbP k po) as [->|Hk3].
+        * intros E; inv E. intros Hin. apply in_app_or in Hin. destruct Hin as [Hin|[<-|[]]].
+          -- assert (Hch : ch <> old).
+             { intros ->. revert Hin. apply NoDup_remove_first_notin. exact Hndl. }
+             apply In_remove_first in Hin. pose proof (sd_cp c HS _ _ _ Hl Hin) as Hp.
+             pose proof (rnd_parent_r _ _ Hp) as Hp'. unfold r, ren in Hp'.
+             destruct (seqbP ch old); [congruence|]. rewrite Hp'.
+             change (fun x : name => if str_eqb x old then new else x) with (ren old new).
+             rewrite <- rn_parent_map, Hrp. reflexivity.
+          -- rewrite rnd_parent, seqb_refl. reflexivity.
+        * intros Hl' Hin. pose proof (sd_cp c HS _ _ _ Hl' Hin) as Hp.
+          assert (Hch : ch <> old) by (intros ->; congruence).
+          pose proof (rnd_parent_r _ _ Hp) as Hp'. unfold r, ren in Hp'.
+          destruct (seqbP ch old); [congruence|]. rewrite Hp'. f_equal.
+          destruct k as [q|]; [|reflexivity]. simpl. destruct (seqbP q old); congruence.
+    - intros l'. rewrite rnd_children. destruct (oeqbP None (Some new)); [discriminate|].
+      destruct (oeqbP None (Some old)); [discriminate|].
+      destruct (oeqbP None po) as [E|E]; [|apply (sd_top c HS)].
+      intros E2. injection E2 as <-. pose proof Hl as Hl0. rewrite <- E in Hl0. pose proof (sd_top c HS _ Hl0) as Hlen.
+      rewrite app_length. simpl.
+      pose proof (remove_first_length old l (count_occ_one_In _ _ Hcnt)). lia.
+    - destruct (sd_acyc c HS) as [rank Hr].
+      exists (fun x => if str_eqb x new then rank old else rank x).
+      intros n q. rewrite rnd_parent. destruct (seqbP n new) as [->|Hn].
+      + intros E. assert (Epo : po = Some q) by congruence. pose proof Hpo as Hpo'. rewrite Epo in Hpo'.
+        specialize (Hr _ _ Hpo'). destruct (seqbP q new); [congruence|exact Hr].
+      + destruct (seqbP n old) as [->|Hn2]; [discriminate|].
+        destruct (lookup n (c_parent c)) as [p0|] eqn:E; [|discriminate]. simpl. intros E2; inv E2.
+        rewrite rn_parent_map in H0. destruct p0 as [q0|]; [|discriminate]. simpl in H0. inv H0.
+        specialize (Hr _ _ E). unfold ren. destruct (seqbP q0 old) as [->|Hq].
+        * rewrite seqb_refl. exact Hr.
+        * destruct (seqbP q0 new) as [->|_]; [|exact Hr].
+          exfalso. destruct (sd_pc c HS _ _ E) as [H1 _]. rewrite (H1 new eq_refl) in Hnew. discriminate.
+    - intros t Hin. unfold c', renamed in Hin. cbn [c_transitions] in Hin.
+      apply in_map_iff in Hin. destruct Hin as [t0 [<- Hin]]. rewrite rn_trans_map.
+      destruct (sd_trans c HS t0 Hin) as [[s [H1 H2]] H3]. split.
+      + assert (Hs : has_state c (t_source t0) = true) by (unfold has_state; rewrite H1; reflexivity).
+        apply rnd_r_state in Hs. apply has_state_Some in Hs. destruct Hs as [s' Hs'].
+        exists s'. split; [exact Hs'|]. destruct (rnd_back _ _ Hs') as [k0 [s0 [Hk0 [Hk [_ [Hkind _]]]]]].
+        simpl in Hk. apply rnd_r_inj in Hk.
+        * subst k0. rewrite Hk0 in H1. inv H1. rewrite Hkind. exact H2.
+        * unfold has_state; rewrite H1; reflexivity.
+        * unfold has_state; rewrite Hk0; reflexivity.
+      + intros tg E. simpl in E. destruct (t_target t0) as [tg0|]; [|discriminate]. simpl in E. inv E.
+        apply rnd_r_state. apply H3; reflexivity.
+    - intros k s H. destruct (rnd_back _ _ H) as [k0 [s0 [Hk0 [_ [_ [_ [Hi Hm]]]]]]].
+      destruct (sd_refs c HS _ _ Hk0) as [H1 H2]. rewrite Hi, Hm.
+      split; intros x Hx.
+      + destruct (s_initial s0) as [i0|]; [|discriminate]. simpl in Hx. inv Hx. apply rnd_r_state, H1; reflexivity.
+      + destruct (s_memory s0) as [m0|]; [|discriminate]. simpl in Hx. inv Hx. apply rnd_r_state, H2; reflexivity.
+    - intros k s i H Hkind Hini. destruct (rnd_back _ _ H) as [k0 [s0 [Hk0 [-> [_ [Hk [Hi _]]]]]]].
+      rewrite Hi in Hini. destruct (s_initial s0) as [i0|] eqn:Ei0; [|discriminate].
+      apply truthy_Some in Hini. destruct Hini as [Hini Hine]. simpl in Hini. inv Hini.
+      assert (Hi0 : i0 <> "").
+      { unfold r, ren in Hine. destruct (seqbP i0 old); congruence. }
+      destruct (sd_vinit c HS k0 s0 i0 Hk0) as [H1 H2]; [congruence|rewrite Ei0; apply truthy_nonempty; exact Hi0|].
+      split; [apply rnd_r_state; exact H1|]. apply rnd_children_for; [|exact H2].
+      unfold has_state; rewrite Hk0; reflexivity.
+    - intros k s m H Hkind Hmem. destruct (rnd_back _ _ H) as [k0 [s0 [Hk0 [-> [_ [Hk [_ Hm]]]]]]].
+      rewrite Hm in Hmem. destruct (s_memory s0) as [m0|] eqn:Em0; [|discriminate]. simpl in Hmem. inv Hmem.
+      rewrite Hk in Hkind.
+      destruct (sd_vmem c HS k0 s0 m0 Hk0 Hkind Em0) as [H1 [H2 [p [H3 H4]]]].
+      assert (Hk0s : has_state c k0 = true) by (unfold has_state; rewrite Hk0; reflexivity).
+      split; [intros E; apply H1; apply rnd_r_inj; assumption|].
+      split; [apply rnd_r_state; exact H2|]. exists (r p).
+      assert (Hpk : lookup k0 (c_parent c) = Some (Some p)).
+      { unfold parent_for in H3. destruct (lookup k0 (c_parent c)) as [pp|]; [congruence|discriminate]. }
+      split.
+      + unfold parent_for. rewrite (rnd_parent_r _ _ Hpk). reflexivity.
+      + apply rnd_children_for; [|exact H4]. apply (sd_pc c HS _ _ Hpk). reflexivity.
+  Qed.
+
+  Lemma renamed_fields_ok : fields_ok c'.
+  Proof.
+    intros k s H. destruct (rnd_back _ _ H) as [k0 [s0 [Hk0 [_ [_ [Hk [Hi Hm]]]]]]].
+    destruct (HF _ _ Hk0) as [H1 H2]. rewrite Hk, Hi, Hm. split; intros x Hx.
+    - destruct (s_initial s0) as [i0|]; [|discriminate]. apply (H1 i0); reflexivity.
+    - destruct (s_memory s0) as [m0|]; [|discriminate]. apply (H2 m0); reflexivity.
+  Qed.
+
+  Lemma renamed_no_empty_name : no_empty_name c -> new <> "" -> no_empty_name c'.
+  Proof.
+    intros H Hn. unfold no_empty_name in *. rewrite rnd_has_state, H.
+    destruct (seqbP "" new); [congruence|]. simpl. apply andb_false_r.
+  Qed.
+End Renamed.
+
+(* the three possible outcomes of rename_state on a sound chart *)
+Lemma rename_state_result : forall c old new c' r, sound c ->
+  rename_state c old new = (c', r) ->
+  (c' = c /\ (r = EStatechartError \/ (r = EOk /\ old = new))) \/
+  (r = EOk /\ old <> new /\ has_state c new = false /\
+   exists st po l lo,
+     lookup old (c_states c) = Some st /\
+     lookup old (c_parent c) = Some po /\ po <> Some old /\ po <> Some new /\
+     olookup po (c_children c) = Some l /\ count_occ string_dec l old = 1 /\
+     olookup (Some old) (c_children c) = Some lo /\
+     c' = renamed c old new st po l lo).
+Proof.
+  intros c old new c' r HS H. destruct (seqbP old new) as [E|Hne].
+  - left. rewrite rename_state_eq in H. apply seqb_eq in E. rewrite E in H. inv H.
+    split; [reflexivity|right; split; [reflexivity|apply seqb_eq; exact E]].
+  - destruct (has_state c new) eqn:Hnew.
+    + left. rewrite rename_state_eq in H. apply seqb_neq in Hne. rewrite Hne, Hnew in H. inv H. auto.
+    + destruct (lookup old (c_states c)) as [st|] eqn:Hst.
+      * right. destruct (rename_state_ok c old new st HS Hne Hnew Hst)
+          as [po [l [lo [H1 [H2 [H3 [H4 [H5 [H6 H7]]]]]]]]].
+        rewrite H7 in H. inv H. split; [reflexivity|]. split; [assumption|]. split; [reflexivity|].
+        exists st, po, l, lo. auto 10.
+      * left. rewrite rename_state_eq in H. apply seqb_neq in Hne. rewrite Hne, Hnew, Hst in H. inv H. auto.
+Qed.
+
+Theorem rename_state_sound : forall c old new c',
+  sound c -> fields_ok c -> no_empty_name c ->
+  rename_state c old new = (c', EOk) ->
+  sound c' /\ fields_ok c' /\ (new <> "" -> no_empty_name c').
+Proof.
+  intros c old new c' HS HF HN H.
+  destruct (rename_state_result _ _ _ _ _ HS H) as [[-> _]|[_ [Hne [Hnew [st [po [l [lo [H1 [H2 [H3 [H4 [H5 [H6 [H7 ->]]]]]]]]]]]]]]].
+  - auto.
+  - assert (Hone : old <> "").
+    { intros ->. unfold no_empty_name, has_state in HN. rewrite H1 in HN. discriminate. }
+    split; [apply renamed_sound; assumption|].
+    split; [apply renamed_fields_ok; assumption|].
+    intros Hn. apply renamed_no_empty_name; assumption.
+Qed.
+
+(* ================================================================== 6. C16: the invariant, all operations *)
+
+(* the invariant of the editing API: soundness plus the two representation facts that sound_b does
+   not contain (no state is called "", only compound states carry `initial` and only history
+   states carry `memory`) *)
+Definition einv (c : chart) : Prop := sound c /\ no_empty_name c /\ fields_ok c.
+
+(* side conditions on the arguments *)
+Definition op_ok (c : chart) (op : eop) : Prop :=
+  match op with
+  | EAddState st p =>
+      s_name st <> "" /\ p <> Some "" /\ s_initial st = None /\ memory_ok c st p
+  | ERenameState _ new => new <> ""
+  | _ => True
+  end.
+
+Lemma fields_ok_states : forall c c', c_states c' = c_states c -> fields_ok c -> fields_ok c'.
+Proof. intros c c' E H k s. rewrite E. apply H. Qed.
+
+Lemma no_empty_name_states : forall c c', c_states c' = c_states c -> no_empty_name c -> no_empty_name c'.
+Proof. intros c c' E H. unfold no_empty_name, has_state in *. rewrite E. exact H. Qed.
+
+Lemma add_transition_states : forall c t c' r, add_transition c t = (c', r) -> c_states c' = c_states c.
+Proof.
+  intros c t c' r H. unfold add_transition in H.
+  repeat break_match_hyp H; inv H; reflexivity.
+Qed.
+
+Lemma remove_transition_states : forall c t c' r, remove_transition c t = (c', r) -> c_states c' = c_states c.
+Proof.
+  intros c t c' r H. unfold remove_transition in H.
+  repeat break_match_hyp H; inv H; reflexivity.
+Qed.
+
+Lemma rotate_transition_states : forall c i s t c' r,
+  rotate_transition c i s t = (c', r) -> c_states c' = c_states c.
+Proof.
+  intros c i s t c' r H. unfold rotate_transition in H.
+  destruct s, t, i; try (inv H; reflexivity);
+  repeat break_match_hyp H; inv H; reflexivity.
+Qed.
+
+Lemma register_fields_ok : forall c st parent l,
+  fields_ok c -> s_initial st = None -> memory_ok c st parent -> fields_ok (register_chart c st parent l).
+Proof.
+  intros c st parent l HF Hi Hm k s. unfold register_chart. cbn [c_states]. rewrite lookup_dset.
+  destruct (seqbP k (s_name st)); [|apply HF]. intros E; inv E. split; intros x Hx; [congruence|].
+  apply (Hm x Hx).
+Qed.
+
+Lemma register_no_empty_name : forall c st parent l,
+  no_empty_name c -> s_name st <> "" -> no_empty_name (register_chart c st parent l).
+Proof.
+  intros c st parent l HN Hn. unfold no_empty_name, has_state, register_chart in *. cbn [c_states].
+  rewrite lookup_dset. destruct (seqbP "" (s_name st)); [congruence|exact HN].
+Qed.
+
+Lemma move_states_lookup : forall c n st k, lookup n (c_states c) = Some st ->
+  lookup k (map (fun kv => (fst kv, clear_refs_move n (snd kv)))
+                (if is_history (s_kind st) then dset n (set_memory_ st None) (c_states c) else c_states c))
+  = option_map (mv_state n k) (lookup k (c_states c)).
+Proof.
+  intros c n st k Hst. rewrite lookup_mapv. unfold mv_state.
+  destruct (is_history (s_kind st)) eqn:Eh.
+  - rewrite lookup_dset. destruct (seqbP k n) as [->|Hk]; simpl.
+    + rewrite Hst. simpl. rewrite Eh. reflexivity.
+    + destruct (lookup k (c_states c)); reflexivity.
+  - destruct (seqbP k n) as [->|Hk]; simpl.
+    + rewrite Hst. simpl. rewrite Eh. reflexivity.
+    + destruct (lookup k (c_states c)); reflexivity.
+Qed.
+
+Lemma move_state_ok_states : forall c n np c', move_state c n np = (c', EOk) ->
+  forall k, lookup k (c_states c') = option_map (mv_state n k) (lookup k (c_states c)).
+Proof.
+  intros c n np c' H k.
+  destruct (move_state_inv _ _ _ _ _ H (or_introl eq_refl)) as [st [Hst [_ [_ Hm]]]].
+  destruct (olookup (parent_for c n) (c_children c)) as [l|]; [|discriminate].
+  destruct Hm as [_ ->]. cbn [c_states]. apply move_states_lookup. exact Hst.
+Qed.
+
+Lemma move_state_fields_ok : forall c n np c', fields_ok c -> move_state c n np = (c', EOk) -> fields_ok c'.
+Proof.
+  intros c n np c' HF H k s. rewrite (move_state_ok_states _ _ _ _ H).
+  destruct (lookup k (c_states c)) as [s0|] eqn:E; [|discriminate]. simpl. intros E2; inv E2.
+  destruct (mv_state_spec n k s0) as [_ [Hk [Hi Hm]]]. destruct (HF _ _ E) as [H1 H2]. rewrite Hk.
+  split; intros x Hx; [apply (H1 x), (Hi x Hx)|apply (H2 x), (Hm x Hx)].
+Qed.
+
+Lemma move_state_no_empty_name : forall c n np c',
+  no_empty_name c -> move_state c n np = (c', EOk) -> no_empty_name c'.
+Proof.
+  intros c n np c' HN H. unfold no_empty_name, has_state in *. rewrite (move_state_ok_states _ _ _ _ H).
+  destruct (lookup "" (c_states c)); [discriminate|reflexivity].
+Qed.
+
+Lemma move_state_no_keyerror : forall c n np c', sound c -> move_state c n np = (c', EKeyError) -> False.
+Proof.
+  intros c n np c' HS H.
+  destruct (move_state_inv _ _ _ _ _ H (or_intror eq_refl)) as [st [Hst [_ [_ Hm]]]].
+  assert (Hn : has_state c n = true) by (unfold has_state; rewrite Hst; reflexivity).
+  destruct (sound_state_parent c HS n Hn) as [op Hop].
+  rewrite (parent_for_lookup _ _ _ Hop) in Hm.
+  destruct (sd_pc c HS _ _ Hop) as [_ [l [Hl _]]]. rewrite Hl in Hm. destruct Hm; discriminate.
+Qed.
+
+(* ------------------------------------------------------------------ C16_preserve *)
+Theorem C16_preserve : forall c op c',
+  einv c -> op_ok c op -> apply_eop c op = (c', EOk) -> einv c'.
+Proof.
+  intros c op c' [HS [HN HF]] Hok H. destruct op as [st p|n|o n|n p|t|t|i s t]; simpl in H, Hok.
+  - destruct Hok as [Hnm [Hp [Hi Hm]]].
+    destruct (add_state_ok _ _ _ _ _ HS HN Hnm H (or_introl eq_refl))
+      as [[_ [l [Hl [Htop [Hpar [Hfresh ->]]]]]]|[E _]]; [|discriminate].
+    split; [apply register_sound; assumption|].
+    split; [apply register_no_empty_name; assumption|apply register_fields_ok; assumption].
+  - destruct (remove_state_sound _ _ _ HS HF H) as [H1 H2]. split; [exact H1|]. split; [|exact H2].
+    rewrite (remove_state_spec c n HS HF) in H. destruct (has_state c n); inv H.
+    apply rm_no_empty_name; exact HN.
+  - destruct (rename_state_sound _ _ _ _ HS HF HN H) as [H1 [H2 H3]]. split; [exact H1|]. split; auto.
+  - split; [eapply move_state_sound; eauto|].
+    split; [eapply move_state_no_empty_name; eauto|eapply move_state_fields_ok; eauto].
+  - pose proof (add_transition_states _ _ _ _ H) as E.
+    split; [eapply add_transition_sound; eauto|].
+    split; [eapply no_empty_name_states; eauto|eapply fields_ok_states; eauto].
+  - pose proof (remove_transition_states _ _ _ _ H) as E.
+    split; [eapply remove_transition_sound; eauto|].
+    split; [eapply no_empty_name_states; eauto|eapply fields_ok_states; eauto].
+  - pose proof (rotate_transition_states _ _ _ _ _ _ H) as E.
+    split; [eapply rotate_transition_sound; eauto|].
+    split; [eapply no_empty_name_states; eauto|eapply fields_ok_states; eauto].
+Qed.
+
+(* ------------------------------------------------------------------ C16_atomic *)
+Theorem C16_atomic : forall c op c' r,
+  sound c -> fields_ok c ->
+  apply_eop c op = (c', r) -> r = EStatechartError \/ r = EValueError -> c' = c.
+Proof.
+  intros c op c' r HS HF H Hr. destruct op as [st p|n|o n|n p|t|t|i s t]; simpl in H.
+  - eapply add_state_atomic; eauto.
+  - eapply remove_state_atomic; eauto.
+  - eapply rename_state_atomic; eauto.
+  - eapply move_state_atomic; eauto.
+  - eapply add_transition_atomic; eauto.
+  - eapply remove_transition_atomic; eauto.
+  - eapply rotate_transition_atomic; eauto.
+Qed.
+
+(* every operation except remove_state is atomic on arbitrary (even unsound) charts *)
+Theorem C16_atomic_any : forall c op c' r,
+  (forall n, op <> ERemoveState n) ->
+  apply_eop c op = (c', r) -> r = EStatechartError \/ r = EValueError -> c' = c.
+Proof.
+  intros c op c' r Hop H Hr. destruct op as [st p|n|o n|n p|t|t|i s t]; simpl in H.
+  - eapply add_state_atomic; eauto.
+  - destruct (Hop n eq_refl).
+  - eapply rename_state_atomic; eauto.
+  - eapply move_state_atomic; eauto.
+  - eapply add_transition_atomic; eauto.
+  - eapply remove_transition_atomic; eauto.
+  - eapply rotate_transition_atomic; eauto.
+Qed.
+
+(* no undocumented KeyError escapes *)
+Theorem C16_no_keyerror : forall c op c',
+  einv c -> op_ok c op -> apply_eop c op = (c', EKeyError) -> False.
+Proof.
+  intros c op c' [HS [HN HF]] Hok H. destruct op as [st p|n|o n|n p|t|t|i s t]; simpl in H, Hok.
+  - destruct Hok as [Hnm [Hp _]]. eapply add_state_no_keyerror; eauto.
+  - eapply remove_state_no_keyerror; eauto.
+  - destruct (rename_state_result _ _ _ _ _ HS H) as [[_ [E|[E _]]]|[E _]]; discriminate.
+  - eapply move_state_no_keyerror; eauto.
+  - unfold add_transition in H. repeat break_match_hyp H; inv H.
+  - unfold remove_transition in H. repeat break_match_hyp H; inv H.
+  - unfold rotate_transition in H. destruct s, t, i; try (inv H; fail); repeat break_match_hyp H; inv H.
+Qed.
+
+(* ------------------------------------------------------------------ C16_seq *)
+Theorem C16_step : forall c op, einv c -> op_ok c op -> einv (fst (apply_eop c op)).
+Proof.
+  intros c op HI Hok. destruct (apply_eop c op) as [c' r] eqn:E. simpl. destruct r.
+  - eapply C16_preserve; eauto.
+  - destruct HI as [HS [HN HF]]. rewrite (C16_atomic _ _ _ _ HS HF E); [exact (conj HS (conj HN HF))|auto].
+  - destruct HI as [HS [HN HF]]. rewrite (C16_atomic _ _ _ _ HS HF E); [exact (conj HS (conj HN HF))|auto].
+  - destruct (C16_no_keyerror _ _ _ HI Hok E).
+Qed.
+
+(* the chart after a sequence of calls; a call that raises leaves what it leaves (by C16_atomic:
+   the chart as it was) and the sequence goes on *)
+Fixpoint run_ops (c : chart) (ops : list eop) : chart :=
+  match ops with
+  | [] => c
+  | op :: rest => run_ops (fst (apply_eop c op)) rest
+  end.
+
+Fixpoint ops_ok (c : chart) (ops : list eop) : Prop :=
+  match ops with
+  | [] => True
+  | op :: rest => op_ok c op /\ ops_ok (fst (apply_eop c op)) rest
+  end.
+
+Theorem C16_seq : forall ops c, einv c -> ops_ok c ops -> einv (run_ops c ops).
+Proof.
+  induction ops as [|op ops IH]; intros c HI Hok; simpl; [exact HI|].
+  destruct Hok as [H1 H2]. apply IH; [apply C16_step; assumption|exact H2].
+Qed.
+
+(* failed calls are skipped: same chart as the run of the successful calls only *)
+Fixpoint successful (c : chart) (ops : list eop) : list eop :=
+  match ops with
+  | [] => []
+  | op :: rest =>
+      match apply_eop c op with
+      | (c', EOk) => op :: successful c' rest
+      | (c', _) => successful c' rest
+      end
+  end.
+
+Fixpoint outcomes (c : chart) (ops : list eop) : list eres :=
+  match ops with
+  | [] => []
+  | op :: rest => snd (apply_eop c op) :: outcomes (fst (apply_eop c op)) rest
+  end.
+
+Theorem C16_seq_skip : forall ops c, einv c -> ops_ok c ops ->
+  run_ops c ops = run_ops c (successful c ops) /\
+  Forall (fun r => r = EOk) (outcomes c (successful c ops)).
+Proof.
+  induction ops as [|op ops IH]; intros c HI Hok; simpl; [split; [reflexivity|constructor]|].
+  destruct Hok as [H1 H2].
+  pose proof (C16_step c op HI H1) as HI'.
+  destruct (apply_eop c op) as [c' r] eqn:E. simpl in *.
+  destruct (IH c' HI' H2) as [IH1 IH2].
+  destruct r.
+  - simpl. rewrite E. simpl. split; [exact IH1|constructor; [reflexivity|exact IH2]].
+  - destruct HI as [HS [HN HF]]. assert (c' = c) by (eapply C16_atomic; eauto). subst c'. split; assumption.
+  - destruct HI as [HS [HN HF]]. assert (c' = c) by (eapply C16_atomic; eauto). subst c'. split; assumption.
+  - destruct (C16_no_keyerror _ _ _ HI H1 E).
+Qed.
+
+(* ================================================================== 7. C16_effect: exact post-states *)
+
+(* a dictionary with unique keys is determined by the order of its keys and its lookup function:
+   the effect theorems below that give "keys + lookup" are therefore complete descriptions *)
+Lemma dict_ext : forall {V} (d1 d2 : list (name * V)),
+  NoDup (map fst d1) -> map fst d1 = map fst d2 ->
+  (forall k, lookup k d1 = lookup k d2) -> d1 = d2.
+Proof.
+  intros V d1; induction d1 as [|[k1 v1] d1 IH]; intros [|[k2 v2] d2] Hnd Hk Hl; simpl in *;
+    try discriminate; [reflexivity|].
+  injection Hk as Ek Hk'. subst k2. inversion Hnd as [|? ? Hnin Hnd']; subst.
+  pose proof (Hl k1) as H0. rewrite seqb_refl in H0. injection H0 as <-. f_equal.
+  assert (E1 : lookup k1 d1 = None) by (apply lookup_None_iff; assumption).
+  assert (E2 : lookup k1 d2 = None) by (apply lookup_None_iff; rewrite <- Hk'; assumption).
+  apply IH; [assumption|assumption|]. intros k. destruct (seqbP k k1) as [E|Hn].
+  - subst k. congruence.
+  - specialize (Hl k). destruct (seqbP k k1); [congruence|exact Hl].
+Qed.
+
+Lemma odict_ext : forall {V} (d1 d2 : list (option name * V)),
+  NoDup (map fst d1) -> map fst d1 = map fst d2 ->
+  (forall k, olookup k d1 = olookup k d2) -> d1 = d2.
+Proof.
+  intros V d1; induction d1 as [|[k1 v1] d1 IH]; intros [|[k2 v2] d2] Hnd Hk Hl; simpl in *;
+    try discriminate; [reflexivity|].
+  injection Hk as Ek Hk'. subst k2. inversion Hnd as [|? ? Hnin Hnd']; subst.
+  pose proof (Hl k1) as H0. rewrite oeqb_refl in H0. injection H0 as <-. f_equal.
+  assert (E1 : olookup k1 d1 = None) by (apply olookup_None_iff; assumption).
+  assert (E2 : olookup k1 d2 = None) by (apply olookup_None_iff; rewrite <- Hk'; assumption).
+  apply IH; [assumption|assumption|]. intros k. destruct (oeqbP k k1) as [E|Hn].
+  - subst k. congruence.
+  - specialize (Hl k). destruct (oeqbP k k1); [congruence|exact Hl].
+Qed.
+
+(* ------------------------------------------------------------------ transitions *)
+Theorem C16_effect_add_transition : forall c t c',
+  add_transition c t = (c', EOk) -> c' = with_transitions c (c_transitions c ++ [t]).
+Proof.
+  intros c t c' H. unfold add_transition in H. repeat break_match_hyp H; inv H; reflexivity.
+Qed.
+
+Lemma remove_first_trans_spec : forall t l l', remove_first_trans t l = Some l' ->
+  exists l1 x l2, l = l1 ++ x :: l2 /\ l' = l1 ++ l2 /\ trans_eqb x t = true /\
+                  forall y, In y l1 -> trans_eqb y t = false.
+Proof.
+  intros t l; induction l as [|y l IH]; intros l' H; simpl in H; [discriminate|].
+  destruct (trans_eqb y t) eqn:E.
+  - inv H. exists [], y, l'. repeat split; auto. intros z [].
+  - destruct (remove_first_trans t l) as [r|]; [|discriminate]. inv H.
+    destruct (IH r eq_refl) as [l1 [x [l2 [H1 [H2 [H3 H4]]]]]]. subst.
+    exists (y :: l1), x, l2. repeat split; auto. intros z [<-|Hz]; auto.
+Qed.
+
+(* the first transition equal (==) to t disappears, nothing else *)
+Theorem C16_effect_remove_transition : forall c t c',
+  remove_transition c t = (c', EOk) ->
+  exists l1 x l2, c_transitions c = l1 ++ x :: l2 /\ trans_eqb x t = true /\
+    (forall y, In y l1 -> trans_eqb y t = false) /\
+    c' = with_transitions c (l1 ++ l2).
+Proof.
+  intros c t c' H. unfold remove_transition in H.
+  destruct (remove_first_trans t (c_transitions c)) as [l|] eqn:E; inv H.
+  destruct (remove_first_trans_spec _ _ _ E) as [l1 [x [l2 [H1 [H2 [H3 H4]]]]]].
+  exists l1, x, l2. subst l. auto.
+Qed.
+
+Lemma nth_error_set_nth : forall {A} i (x : A) l j, i < length l ->
+  nth_error (set_nth i x l) j = if Nat.eqb j i then Some x else nth_error l j.
+Proof.
+  intros A i x l; revert i; induction l as [|y l IH]; intros i j Hi; simpl in Hi; [lia|].
+  destruct i as [|i]; destruct j as [|j]; simpl; try reflexivity. apply IH. lia.
+Qed.
+
+Lemma length_set_nth : forall {A} i (x : A) l, length (set_nth i x l) = length l.
+Proof.
+  intros A i x l; revert i; induction l as [|y l IH]; intros [|i]; simpl; auto.
+Qed.
+
+(* the i-th transition gets the new source and/or target, nothing else *)
+Theorem C16_effect_rotate_transition : forall c i ns nt c',
+  rotate_transition c i ns nt = (c', EOk) ->
+  exists j t, i = Some j /\ nth_error (c_transitions c) j = Some t /\
+    c' = with_transitions c
+           (set_nth j (mkTrans (match ns with Some s => s | None => t_source t end)
+                               (match nt with Some tg => tg | None => t_target t end)
+                               (t_event t) (t_guard t) (t_action t) (t_priority t)
+                               (t_pre t) (t_post t) (t_inv t))
+                    (c_transitions c)).
+Proof.
+  intros c i ns nt c' H. unfold rotate_transition in H.
+  destruct i as [j|]; [|destruct ns, nt; discriminate].
+  destruct (nth_error (c_transitions c) j) as [t|] eqn:En; [|destruct ns, nt; discriminate].
+  exists j, t. split; [reflexivity|]. split; [exact En|].
+  destruct t as [src tg ev g a p pre post iv].
+  destruct ns as [s|], nt as [tg'|]; try discriminate;
+    match type of H with (if ?b then _ else _) = _ => destruct b end; inv H; reflexivity.
+Qed.
+
+(* ------------------------------------------------------------------ add_state *)
+Theorem C16_effect_add_state : forall c st p c',
+  sound c -> no_empty_name c -> s_name st <> "" ->
+  add_state c st p = (c', EOk) ->
+  has_state c (s_name st) = false /\
+  c_name c' = c_name c /\ c_description c' = c_description c /\ c_preamble c' = c_preamble c /\
+  c_states c' = c_states c ++ [(s_name st, st)] /\
+  c_parent c' = c_parent c ++ [(s_name st, p)] /\
+  map fst (c_children c') = map fst (c_children c) ++ [Some (s_name st)] /\
+  (forall k, olookup k (c_children c') =
+             if opt_eqb str_eqb k p
+             then option_map (fun l => l ++ [s_name st]) (olookup p (c_children c))
+             else if opt_eqb str_eqb k (Some (s_name st)) then Some [] else olookup k (c_children c)) /\
+  c_transitions c' = c_transitions c.
+Proof.
+  intros c st p c' HS HN Hnm H.
+  destruct (add_state_ok _ _ _ _ _ HS HN Hnm H (or_introl eq_refl))
+    as [[_ [l [Hl [Htop [Hpar [Hfresh ->]]]]]]|[E _]]; [|discriminate].
+  split; [exact Hfresh|]. unfold register_chart.
+  cbn [c_name c_description c_preamble c_states c_parent c_children c_transitions].
+  repeat (split; [reflexivity|]).
+  split; [apply dset_fresh; apply has_state_false; exact Hfresh|].
+  split; [apply dset_fresh; apply (sound_nostate_parent c HS); exact Hfresh|].
+  split.
+  - rewrite !okeys_oset.
+    destruct (in_dec oname_dec (Some (s_name st)) (map fst (c_children c))) as [Hin|Hnin].
+    + exfalso. apply olookup_None_iff_not in Hin. apply Hin. apply (sound_nostate_children c HS); exact Hfresh.
+    + destruct (in_dec oname_dec p (map fst (c_children c) ++ [Some (s_name st)])) as [_|Hnin2]; [reflexivity|].
+      exfalso. apply Hnin2. apply in_or_app. left. apply olookup_None_iff_not. congruence.
+  - split; [|reflexivity]. intros k. rewrite !olookup_oset, Hl. reflexivity.
+Qed.
+
+(* ------------------------------------------------------------------ remove_state *)
+Definition reset_refs (D : name -> bool) (s : state) : state :=
+  mkState (s_name s) (s_kind s)
+          (if oin D (s_initial s) then None else s_initial s)
+          (if oin D (s_memory s) then None else s_memory s)
+          (s_on_entry s) (s_on_exit s) (s_pre s) (s_post s) (s_inv s).
+
+Lemma clr_reset : forall D s,
+  (forall i, s_initial s = Some i -> s_kind s = KCompound) ->
+  (forall m, s_memory s = Some m -> is_history (s_kind s) = true) ->
+  clr D s = reset_refs D s.
+Proof.
+  intros D [nm k i m en ex pre post iv] Hi Hm. simpl in Hi, Hm.
+  destruct k; destruct i as [i|]; destruct m as [m|];
+    try (specialize (Hi _ eq_refl); discriminate); try (specialize (Hm _ eq_refl); discriminate);
+    unfold clr, reset_refs, set_initial, set_memory_; simpl;
+    try destruct (D i); try destruct (D m); reflexivity.
+Qed.
+
+(* remove_state n removes exactly subtree+(n) = n :: descendants_for c n from the three
+   dictionaries and from every children list, removes exactly the transitions with an end in it,
+   resets exactly the initial / memory fields naming a removed state, keeps every order and
+   changes nothing else *)
+Theorem C16_effect_remove_state : forall c n c',
+  sound c -> fields_ok c -> remove_state c n = (c', EOk) ->
+  let D := fun x => mem x (n :: descendants_for c n) in
+  has_state c n = true /\
+  c_name c' = c_name c /\ c_description c' = c_description c /\ c_preamble c' = c_preamble c /\
+  c_states c' = filter (fun kv => negb (D (fst kv)))
+                       (map (fun kv => (fst kv, reset_refs D (snd kv))) (c_states c)) /\
+  c_parent c' = filter (fun kv => negb (D (fst kv))) (c_parent c) /\
+  c_children c' = filter (fun kv => negb (oin D (fst kv)))
+                         (map (fun kv => (fst kv, filter (fun x => negb (D x)) (snd kv))) (c_children c)) /\
+  c_transitions c' = filter (fun t => negb (D (t_source t) || oin D (t_target t))) (c_transitions c).
+Proof.
+  intros c n c' HS HF H D. rewrite (remove_state_spec c n HS HF) in H.
+  destruct (has_state c n); inv H. split; [reflexivity|].
+  unfold rm. cbn [c_name c_description c_preamble c_states c_parent c_children c_transitions].
+  repeat (split; [reflexivity|]). split; [|repeat split].
+  apply f_equal. apply map_ext_in. intros [k s] Hin. simpl. f_equal.
+  destruct (HF k s (In_lookup _ _ _ (sd_nd_states c HS) Hin)) as [H1 H2].
+  apply clr_reset; assumption.
+Qed.
+
+(* ------------------------------------------------------------------ move_state *)
+Definition reset_moved (n k : name) (s : state) : state :=
+  mkState (s_name s) (s_kind s)
+          (if ostr_eqb (s_initial s) (Some n) then None else s_initial s)
+          (if str_eqb k n || ostr_eqb (s_memory s) (Some n) then None else s_memory s)
+          (s_on_entry s) (s_on_exit s) (s_pre s) (s_post s) (s_inv s).
+
+Lemma mv_state_reset : forall n k s,
+  (forall i, s_initial s = Some i -> s_kind s = KCompound) ->
+  (forall m, s_memory s = Some m -> is_history (s_kind s) = true) ->
+  mv_state n k s = reset_moved n k s.
+Proof.
+  intros n k [nm kd i m en ex pre post iv] Hi Hm. simpl in Hi, Hm.
+  destruct kd; destruct i as [i|]; destruct m as [m|];
+    try (specialize (Hi _ eq_refl); discriminate); try (specialize (Hm _ eq_refl); discriminate);
+    unfold mv_state, reset_moved, clear_refs_move, set_initial, set_memory_, ostr_eqb; simpl;
+    destruct (str_eqb k n); simpl; try destruct (str_eqb i n); try destruct (str_eqb m n); reflexivity.
+Qed.
+
+Lemma lookup_mapkv : forall {V W} (f : name -> V -> W) k (d : list (name * V)),
+  lookup k (map (fun kv => (fst kv, f (fst kv) (snd kv))) d) = option_map (f k) (lookup k d).
+Proof.
+  intros V W f k d; induction d as [|[k0 v0] d IH]; simpl; [reflexivity|].
+  destruct (seqbP k k0) as [->|]; [reflexivity|exact IH].
+Qed.
+
+Lemma move_children_lookup : forall c n np op l, sound c ->
+  lookup n (c_parent c) = Some op -> olookup op (c_children c) = Some l -> has_state c np = true ->
+  forall k,
+    olookup k (let ch1 := oset op (remove_first n l) (c_children c) in
+               oset (Some np) ((match olookup (Some np) ch1 with Some x => x | None => [] end) ++ [n]) ch1)
+    = option_map (mv_list n np k) (olookup k (c_children c)).
+Proof.
+  intros c n np op l HS Hop Hl Hnp k. cbv zeta.
+  assert (Hnin : forall k lk, olookup k (c_children c) = Some lk -> k <> op -> ~ In n lk).
+  { intros k0 lk Hk Hne Hin. rewrite (sd_cp c HS _ _ _ Hk Hin) in Hop. congruence. }
+  destruct (sound_state_children c HS np Hnp) as [lnp Hlnp].
+  rewrite !olookup_oset. unfold mv_list.
+  destruct (oeqbP k (Some np)) as [->|Hk].
+  - rewrite Hlnp. cbn [option_map]. destruct (oeqbP (Some np) op) as [E|E].
+    + assert (E2 : l = lnp) by congruence. rewrite E2. reflexivity.
+    + rewrite (remove_first_notin n lnp); [reflexivity|]. apply (Hnin _ _ Hlnp E).
+  - destruct (oeqbP k op) as [->|Hk2].
+    + rewrite Hl. reflexivity.
+    + destruct (olookup k (c_children c)) as [lk|] eqn:Ek; [|reflexivity]. simpl.
+      rewrite (remove_first_notin n lk); [reflexivity|]. apply (Hnin _ _ Ek Hk2).
+Qed.
+
+Lemma okeys_oset_in : forall {V} k (v : V) d, olookup k d <> None -> map fst (oset k v d) = map fst d.
+Proof.
+  intros V k v d H. rewrite okeys_oset.
+  destruct (in_dec oname_dec k (map fst d)) as [_|Hn]; [reflexivity|].
+  exfalso. apply H. apply olookup_None_iff. exact Hn.
+Qed.
+
+(* move_state n p: the parent of n becomes p; n leaves the children list of its old parent and is
+   appended to the one of p; `initial` of the old parent and `memory` of the history states below
+   the old parent are reset if they named n, and so is the memory of n itself; every order is kept
+   and nothing else changes *)
+Theorem C16_effect_move_state : forall c n p c',
+  sound c -> fields_ok c -> move_state c n p = (c', EOk) ->
+  has_state c n = true /\ has_state c p = true /\ ~ In p (n :: descendants_for c n) /\
+  c_name c' = c_name c /\ c_description c' = c_description c /\ c_preamble c' = c_preamble c /\
+  c_states c' = map (fun kv => (fst kv, reset_moved n (fst kv) (snd kv))) (c_states c) /\
+  map fst (c_parent c') = map fst (c_parent c) /\
+  (forall k, lookup k (c_parent c') = if str_eqb k n then Some (Some p) else lookup k (c_parent c)) /\
+  map fst (c_children c') = map fst (c_children c) /\
+  (forall k, olookup k (c_children c') =
+             option_map (fun l => if opt_eqb str_eqb k (Some p) then remove_first n l ++ [n]
+                                  else remove_first n l)
+                        (olookup k (c_children c))) /\
+  c_transitions c' = c_transitions c.
+Proof.
+  intros c n p c' HS HF H.
+  destruct (move_state_inv _ _ _ _ _ H (or_introl eq_refl)) as [st [Hst [Hp [Hguard Hm]]]].
+  assert (Hn : has_state c n = true) by (unfold has_state; rewrite Hst; reflexivity).
+  destruct (sound_state_parent c HS n Hn) as [op Hop].
+  rewrite (parent_for_lookup _ _ _ Hop) in Hm.
+  destruct (sd_pc c HS _ _ Hop) as [_ [l [Hl _]]]. rewrite Hl in Hm. destruct Hm as [_ ->].
+  split; [exact Hn|]. split; [exact Hp|]. split; [apply mem_false_iff; exact Hguard|].
+  cbn [c_name c_description c_preamble c_states c_parent c_children c_transitions].
+  repeat (split; [reflexivity|]).
+  split; [|split; [|split; [|split; [|split; [|reflexivity]]]]].
+  - apply dict_ext.
+    + rewrite keys_mapv. destruct (is_history (s_kind st)); [apply NoDup_keys_dset|]; apply (sd_nd_states c HS).
+    + rewrite keys_mapv.
+      assert (E : forall (d : list (name * state)) (g : name -> state -> state),
+                 map fst (map (fun kv => (fst kv, g (fst kv) (snd kv))) d) = map fst d).
+      { intros d g. rewrite map_map. reflexivity. }
+      rewrite E. destruct (is_history (s_kind st)); [|reflexivity].
+      rewrite keys_dset. assert (Hmem : mem n (map fst (c_states c)) = true).
+      { apply mem_In. apply has_state_In. exact Hn. }
+      rewrite Hmem. reflexivity.
+    + intros k. rewrite (move_states_lookup c n st k Hst), lookup_mapkv.
+      destruct (lookup k (c_states c)) as [s|] eqn:E; [|reflexivity]. simpl. f_equal.
+      destruct (HF _ _ E) as [H1 H2]. apply mv_state_reset; assumption.
+  - rewrite keys_dset. assert (Hmem : mem n (map fst (c_parent c)) = true).
+    { apply mem_In. apply lookup_Some_In_keys. congruence. }
+    rewrite Hmem. reflexivity.
+  - intros k. apply lookup_dset.
+  - rewrite !okeys_oset_in; [reflexivity|congruence|].
+    rewrite olookup_oset. destruct (opt_eqb str_eqb (Some p) op); [discriminate|].
+    apply (sd_ckeys c HS). exact Hp.
+  - intros k. pose proof (move_children_lookup c n p op l HS Hop Hl Hp k) as Hc.
+    cbv zeta in Hc. cbv zeta. rewrite Hc. reflexivity.
+Qed.
+
+(* who can be touched by the resets of move_state *)
+Lemma move_state_touched : forall c n k s, sound c -> n <> "" ->
+  lookup k (c_states c) = Some s ->
+  (s_kind s = KCompound -> s_initial s = Some n -> parent_for c n = Some k) /\
+  (is_history (s_kind s) = true -> s_memory s = Some n -> parent_for c k = parent_for c n).
+Proof.
+  intros c n k s HS Hn Hk. split.
+  - intros Hkind Hi. destruct (sd_vinit c HS k s n Hk Hkind) as [_ Hin].
+    + rewrite Hi. apply truthy_nonempty. exact Hn.
+    + apply parent_for_lookup. apply sound_child_parent; assumption.
+  - intros Hkind Hm. destruct (sd_vmem c HS k s n Hk Hkind Hm) as [_ [_ [p [Hp Hin]]]].
+    rewrite Hp. symmetry. apply parent_for_lookup. apply sound_child_parent; assumption.
+Qed.
+
+Lemma reset_moved_id : forall n k s,
+  s_initial s <> Some n -> s_memory s <> Some n -> (k = n -> s_memory s = None) -> reset_moved n k s = s.
+Proof.
+  intros n k [nm kd i m en ex pre post iv] Hi Hm Hk. simpl in *. unfold reset_moved. simpl.
+  assert (E1 : ostr_eqb i (Some n) = false).
+  { destruct (ostr_eqb i (Some n)) eqn:E; [|reflexivity]. apply ostr_eqb_eq in E. congruence. }
+  assert (E2 : ostr_eqb m (Some n) = false).
+  { destruct (ostr_eqb m (Some n)) eqn:E; [|reflexivity]. apply ostr_eqb_eq in E. congruence. }
+  rewrite E1, E2. destruct (seqbP k n) as [E|_]; [|reflexivity]. simpl. rewrite (Hk E). reflexivity.
+Qed.
+
+(* ------------------------------------------------------------------ rename_state *)
+Lemma ren_id : forall old new x, x <> old -> ren old new x = x.
+Proof. intros old new x H. unfold ren. destruct (seqbP x old); congruence. Qed.
+
+Lemma ren_old : forall old new, ren old new old = new.
+Proof. intros old new. unfold ren. rewrite seqb_refl. reflexivity. Qed.
+
+Lemma ren_refl : forall old x, ren old old x = x.
+Proof. intros old x. unfold ren. destruct (seqbP x old); congruence. Qed.
+
+Lemma lookup_map_ren : forall {V W} old new (g : V -> W) (d : list (name * V)) k,
+  old <> new -> ~ In new (map fst d) ->
+  lookup k (map (fun kv => (ren old new (fst kv), g (snd kv))) d) =
+  if str_eqb k old then None else option_map g (lookup (if str_eqb k new then old else k) d).
+Proof.
+  intros V W old new g d k Hne; induction d as [|[k0 v0] d IH]; simpl; intros Hnin.
+  - destruct (str_eqb k old); reflexivity.
+  - assert (Hk0 : k0 <> new) by tauto. assert (Hd : ~ In new (map fst d)) by tauto.
+    specialize (IH Hd). unfold ren at 1. destruct (seqbP k0 old) as [->|Hk0o].
+    + destruct (seqbP k new) as [->|Hkn].
+      * destruct (seqbP new old); [congruence|]. rewrite seqb_refl. reflexivity.
+      * rewrite IH. destruct (seqbP k old); [reflexivity|]. destruct (seqbP k new); [congruence|].
+        destruct (seqbP k old); [congruence|reflexivity].
+    + destruct (seqbP k k0) as [->|Hkk].
+      * destruct (seqbP k0 old); [congruence|]. destruct (seqbP k0 new); [congruence|].
+        rewrite seqb_refl. reflexivity.
+      * rewrite IH. destruct (seqbP k old); [reflexivity|].
+        destruct (seqbP k new) as [->|_].
+        -- destruct (seqbP old k0); [congruence|reflexivity].
+        -- destruct (seqbP k k0); [congruence|reflexivity].
+Qed.
+
+Lemma olookup_map_ren : forall {V W} old new (g : V -> W) (d : list (option name * V)) k,
+  old <> new -> ~ In (Some new) (map fst d) ->
+  olookup k (map (fun kv => (option_map (ren old new) (fst kv), g (snd kv))) d) =
+  if opt_eqb str_eqb k (Some old) then None
+  else option_map g (olookup (if opt_eqb str_eqb k (Some new) then Some old else k) d).
+Proof.
+  intros V W old new g d k Hne; induction d as [|[k0 v0] d IH]; simpl; intros Hnin.
+  - destruct (opt_eqb str_eqb k (Some old)); reflexivity.
+  - assert (Hk0 : k0 <> Some new) by tauto. assert (Hd : ~ In (Some new) (map fst d)) by tauto.
+    specialize (IH Hd).
+    destruct (oeqbP k0 (Some old)) as [->|Hk0o].
+    + cbn [option_map]. rewrite ren_old. destruct (oeqbP k (Some new)) as [->|Hkn].
+      * destruct (oeqbP (Some new) (Some old)); [congruence|]. rewrite oeqb_refl. reflexivity.
+      * rewrite IH. destruct (oeqbP k (Some old)); [reflexivity|].
+        destruct (oeqbP k (Some new)); [congruence|]. destruct (oeqbP k (Some old)); [congruence|reflexivity].
+    + assert (E : option_map (ren old new) k0 = k0).
+      { destruct k0 as [q|]; [|reflexivity]. simpl. rewrite ren_id; [reflexivity|congruence]. }
+      rewrite E. destruct (oeqbP k k0) as [->|Hkk].
+      * destruct (oeqbP k0 (Some old)); [congruence|]. destruct (oeqbP k0 (Some new)); [congruence|].
+        rewrite oeqb_refl. reflexivity.
+      * rewrite IH. destruct (oeqbP k (Some old)); [reflexivity|].
+        destruct (oeqbP k (Some new)) as [->|_].
+        -- destruct (oeqbP (Some old) k0); [congruence|reflexivity].
+        -- destruct (oeqbP k k0); [congruence|reflexivity].
+Qed.
+
+Lemma map_ren_id : forall old new l, ~ In old l -> map (ren old new) l = l.
+Proof.
+  intros old new l H. apply map_id_in. intros x Hx. apply ren_id. intros ->; auto.
+Qed.
+
+Lemma remove_first_map_ren : forall old new l, ~ In new l -> NoDup l ->
+  remove_first new (map (ren old new) l) = remove_first old l.
+Proof.
+  intros old new l; induction l as [|y l IH]; simpl; intros Hnew Hnd; [reflexivity|].
+  inv Hnd. destruct (seqbP y old) as [->|Hy].
+  - rewrite ren_old, !seqb_refl. apply map_ren_id. assumption.
+  - rewrite (ren_id old new y Hy).
+    destruct (seqbP new y); [exfalso; apply Hnew; left; congruence|].
+    destruct (seqbP old y); [congruence|]. f_equal. apply IH; [tauto|assumption].
+Qed.
+
+(* a list in which x (if present) is moved to the end *)
+Definition to_end (x : name) (l : list name) : list name :=
+  if mem x l then remove_first x l ++ [x] else l.
+
+Lemma map_state_rename_refs : forall old new k s,
+  (forall i, s_initial s = Some i -> s_kind s = KCompound) ->
+  (forall m, s_memory s = Some m -> is_history (s_kind s) = true) ->
+  s_name s = k ->
+  map_state (ren old new) s =
+  if str_eqb k old then set_name (rename_refs old new s) new else rename_refs old new s.
+Proof.
+  intros old new k s Hi Hm Hk. rewrite (rename_refs_map old new s Hi Hm). unfold map_state, set_name. simpl.
+  rewrite Hk. unfold ren at 1. destruct (str_eqb k old); reflexivity.
+Qed.
+
+(* C17_structure / C16_effect_rename: after rename_state old new (old <> new) the chart is
+   map_chart (old |-> new) c, except that the entry of the renamed state sits at the end of the
+   three dictionaries and at the end of its parent's children list (Python: d[new] = d.pop(old),
+   list.remove + list.append).  Every transition keeps its shape. *)
+Theorem C17_structure : forall c old new c',
+  sound c -> fields_ok c -> old <> new ->
+  rename_state c old new = (c', EOk) ->
+  let M := map_chart (ren old new) c in
+  has_state c old = true /\ has_state c new = false /\
+  c_name c' = c_name c /\ c_description c' = c_description c /\ c_preamble c' = c_preamble c /\
+  c_transitions c' = c_transitions M /\
+  (forall k, lookup k (c_states c') = lookup k (c_states M)) /\
+  (forall k, lookup k (c_parent c') = lookup k (c_parent M)) /\
+  (forall k, olookup k (c_children c') = option_map (to_end new) (olookup k (c_children M))) /\
+  map fst (c_states c') = remove_first old (map fst (c_states c)) ++ [new] /\
+  map fst (c_parent c') = remove_first old (map fst (c_parent c)) ++ [new] /\
+  map fst (c_children c') =
+    filter (fun k => negb (opt_eqb str_eqb k (Some old))) (map fst (c_children c)) ++ [Some new].
+Proof.
+  intros c old new c' HS HF Hne H M.
+  destruct (rename_state_result _ _ _ _ _ HS H)
+    as [[_ [E|[_ E]]]|[_ [_ [Hnew [st [po [l [lo [Hst [Hpo [Hpo1 [Hpo2 [Hl [Hcnt [Hlo ->]]]]]]]]]]]]]]];
+    [discriminate|congruence|].
+  assert (Hold : has_state c old = true) by (unfold has_state; rewrite Hst; reflexivity).
+  assert (HnewS : ~ In new (map fst (c_states c))).
+  { rewrite <- has_state_In. congruence. }
+  assert (HnewP : ~ In new (map fst (c_parent c))).
+  { rewrite <- lookup_Some_In_keys. rewrite (sd_pkeys c HS). congruence. }
+  assert (HnewC : ~ In (Some new) (map fst (c_children c))).
+  { rewrite <- olookup_None_iff_not. rewrite (sd_ckeys c HS). congruence. }
+  assert (Hnewl : forall k lk, olookup k (c_children c) = Some lk -> ~ In new lk).
+  { intros k lk Hk Hin. rewrite (sound_child_state c HS _ _ _ Hk Hin) in Hnew. discriminate. }
+  split; [exact Hold|]. split; [exact Hnew|].
+  unfold renamed at 1 2 3 4. cbn [c_name c_description c_preamble c_transitions].
+  repeat (split; [reflexivity|]).
+  split; [|split; [|split; [|split; [|split; [|split]]]]].
+  - unfold M, map_chart. cbn [c_transitions]. apply map_ext. apply rn_trans_map.
+  - intros k. rewrite (rnd_states c old new st po l lo HS).
+    unfold M, map_chart. cbn [c_states].
+    rewrite (lookup_map_ren old new (map_state (ren old new)) (c_states c) k Hne HnewS).
+    destruct (seqbP k new) as [->|Hkn].
+    + destruct (seqbP new old); [congruence|]. rewrite Hst. simpl. f_equal.
+      destruct (HF _ _ Hst) as [H1 H2].
+      rewrite (map_state_rename_refs old new old st H1 H2 (sd_keyname c HS _ _ Hst)), seqb_refl. reflexivity.
+    + destruct (seqbP k old); [reflexivity|].
+      destruct (lookup k (c_states c)) as [s|] eqn:E; [|reflexivity]. simpl. f_equal.
+      destruct (HF _ _ E) as [H1 H2].
+      rewrite (map_state_rename_refs old new k s H1 H2 (sd_keyname c HS _ _ E)).
+      destruct (seqbP k old); [congruence|reflexivity].
+  - intros k. rewrite (rnd_parent c old new st po l lo HS).
+    unfold M, map_chart. cbn [c_parent].
+    rewrite (lookup_map_ren old new (option_map (ren old new)) (c_parent c) k Hne HnewP).
+    destruct (seqbP k new) as [->|Hkn].
+    + destruct (seqbP new old); [congruence|]. rewrite Hpo. simpl. f_equal.
+      destruct po as [q|]; [|reflexivity]. simpl. rewrite ren_id; [reflexivity|congruence].
+    + destruct (seqbP k old); [reflexivity|].
+      destruct (lookup k (c_parent c)) as [p0|]; [|reflexivity]. simpl. rewrite rn_parent_map. reflexivity.
+  - intros k. rewrite (rnd_children c old new st po l lo HS).
+    unfold M, map_chart. cbn [c_children].
+    rewrite (olookup_map_ren old new (map (ren old new)) (c_children c) k Hne HnewC).
+    assert (Holdl : forall k0 lk, olookup k0 (c_children c) = Some lk -> k0 <> po -> ~ In old lk).
+    { intros k0 lk Hk Hk0 Hin. rewrite (sd_cp c HS _ _ _ Hk Hin) in Hpo. congruence. }
+    assert (Hsame : forall k0 lk, olookup k0 (c_children c) = Some lk -> k0 <> po ->
+                      to_end new (map (ren old new) lk) = lk).
+    { intros k0 lk Hk Hk0. rewrite map_ren_id by (eapply Holdl; eauto). unfold to_end.
+      assert (Em : mem new lk = false) by (apply mem_false_iff; eapply Hnewl; eauto).
+      rewrite Em. reflexivity. }
+    destruct (oeqbP k (Some new)) as [->|Hkn].
+    + destruct (oeqbP (Some new) (Some old)); [congruence|]. rewrite Hlo. simpl. f_equal. symmetry.
+      apply (Hsame _ _ Hlo). congruence.
+    + destruct (oeqbP k (Some old)); [reflexivity|].
+      destruct (oeqbP k po) as [->|Hkp].
+      * rewrite Hl. simpl. f_equal. unfold to_end.
+        assert (Em : mem new (map (ren old new) l) = true).
+        { apply mem_In. apply in_map_iff. exists old. split; [apply ren_old|apply count_occ_one_In; exact Hcnt]. }
+        rewrite Em. rewrite remove_first_map_ren; [reflexivity|eapply Hnewl; eauto|].
+        apply (sound_children_NoDup c HS _ _ Hl).
+      * destruct (olookup k (c_children c)) as [lk|] eqn:E; [|reflexivity]. simpl. f_equal. symmetry.
+        apply (Hsame _ _ E Hkp).
+  - unfold renamed. cbn [c_states]. rewrite keys_dset, keys_dremove, keys_mapv.
+    assert (Em : mem new (remove_first old (map fst (c_states c))) = false).
+    { apply mem_false_iff. intros Hin. apply HnewS. eapply In_remove_first; eauto. }
+    rewrite Em. reflexivity.
+  - unfold renamed. cbn [c_parent]. rewrite keys_dset, keys_dremove, keys_mapv.
+    assert (Em : mem new (remove_first old (map fst (c_parent c))) = false).
+    { apply mem_false_iff. intros Hin. apply HnewP. eapply In_remove_first; eauto. }
+    rewrite Em. reflexivity.
+  - unfold renamed. cbn [c_children].
+    assert (Hndo : NoDup (map fst (oset po (remove_first old l ++ [new]) (c_children c)))).
+    { apply NoDup_keys_oset. apply (sd_nd_children c HS). }
+    rewrite okeys_oset, (oremove_filter _ _ Hndo).
+    assert (Ek : forall (d : list (option name * list name)) (q : option name -> bool),
+               map fst (filter (fun kv => q (fst kv)) d) = filter q (map fst d)).
+    { intros d q. induction d as [|[k0 v0] d IHd]; simpl; [reflexivity|].
+      destruct (q k0); simpl; rewrite IHd; reflexivity. }
+    rewrite (Ek _ (fun k => negb (opt_eqb str_eqb k (Some old)))).
+    rewrite okeys_oset_in by congruence.
+    destruct (in_dec oname_dec (Some new) _) as [Hin|_]; [|reflexivity].
+    exfalso. apply filter_In in Hin. apply HnewC. apply Hin.
+Qed.
+
+(* internal transitions stay internal, whatever the chart *)
+Theorem C17_internal_stay_internal : forall c old new c',
+  rename_state c old new = (c', EOk) ->
+  c_transitions c' = map (map_trans (ren old new)) (c_transitions c) /\
+  forall i t', nth_error (c_transitions c') i = Some t' ->
+    exists t, nth_error (c_transitions c) i = Some t /\
+      (t_target t' = None <-> t_target t = None) /\
+      t_source t' = ren old new (t_source t) /\ t_target t' = option_map (ren old new) (t_target t).
+Proof.
+  intros c old new c' H.
+  assert (E : c_transitions c' = map (map_trans (ren old new)) (c_transitions c)).
+  { rewrite rename_state_eq in H. destruct (seqbP old new) as [->|Hne].
+    - inv H. symmetry. apply map_id_in. intros [src tg ev g a p pre post iv] _. unfold map_trans. simpl.
+      rewrite ren_refl. destruct tg as [tg|]; simpl; [rewrite ren_refl|]; reflexivity.
+    - destruct (has_state c new); [discriminate|].
+      destruct (lookup old (c_states c)); [|discriminate]. cbv zeta in H. inv H.
+      cbn [c_transitions]. apply map_ext. apply rn_trans_map. }
+  split; [exact E|]. intros i t' Hn. rewrite E in Hn.
+  rewrite nth_error_map in Hn. destruct (nth_error (c_transitions c) i) as [t|]; [|discriminate].
+  simpl in Hn. inv Hn. exists t. split; [reflexivity|]. simpl.
+  split; [|split; reflexivity]. destruct (t_target t); simpl; split; congruence.
+Qed.
+
+(* ------------------------------------------------------------------ the side condition of add_state is needed *)
+Theorem add_state_side_condition_needed : forall c st p c',
+  einv c -> s_name st <> "" -> add_state c st p = (c', EOk) -> einv c' ->
+  s_initial st = None /\ memory_ok c st p.
+Proof.
+  intros c st p c' [HS [HN HF]] Hnm H [HS' [HN' HF']].
+  destruct (add_state_ok _ _ _ _ _ HS HN Hnm H (or_introl eq_refl))
+    as [[_ [l [Hl [Htop [Hpar [Hfresh ->]]]]]]|[E _]]; [|discriminate].
+  set (nm := s_name st) in *.
+  assert (Hst : lookup nm (c_states (register_chart c st p l)) = Some st).
+  { unfold register_chart. cbn [c_states]. rewrite lookup_dset, seqb_refl. reflexivity. }
+  assert (Hpn : p <> Some nm).
+  { intros E. rewrite (Hpar nm E) in Hfresh. discriminate. }
+  assert (Hch : forall k, olookup k (c_children (register_chart c st p l)) =
+                          if opt_eqb str_eqb k p then Some (l ++ [nm])
+                          else if opt_eqb str_eqb k (Some nm) then Some [] else olookup k (c_children c)).
+  { intros k. unfold register_chart. cbn [c_children]. rewrite !olookup_oset. reflexivity. }
+  destruct (HF' _ _ Hst) as [F1 F2]. split.
+  - destruct (s_initial st) as [i|] eqn:Ei; [|reflexivity]. exfalso.
+    destruct (seqbP i "") as [->|Hi].
+    + destruct (sd_refs _ HS' _ _ Hst) as [R1 _]. specialize (R1 "" Ei).
+      unfold no_empty_name in HN'. congruence.
+    + destruct (sd_vinit _ HS' nm st i Hst (F1 i eq_refl)) as [_ Hin].
+      * rewrite Ei. apply truthy_nonempty. exact Hi.
+      * unfold children_for in Hin. rewrite Hch in Hin.
+        destruct (oeqbP (Some nm) p); [congruence|]. rewrite oeqb_refl in Hin. destruct Hin.
+  - intros m Hm. split; [apply (F2 m Hm)|].
+    destruct (sd_vmem _ HS' nm st m Hst (F2 m Hm) Hm) as [Hmn [_ [q [Hq Hin]]]].
+    split; [exact Hmn|]. exists q.
+    assert (Ep : p = Some q).
+    { unfold parent_for, register_chart in Hq. cbn [c_parent] in Hq. rewrite lookup_dset, seqb_refl in Hq. exact Hq. }
+    split; [exact Ep|]. unfold children_for in Hin |- *. rewrite Hch in Hin. subst p.
+    rewrite oeqb_refl in Hin. rewrite Hl. apply in_app_or in Hin. destruct Hin as [Hin|[E|[]]]; [exact Hin|congruence].
+Qed.
+
+(* ================================================================== 8. non-vacuity: a concrete chart and a concrete run *)
+Definition stx (n : name) (k : kind) (i m : option name) : state := mkState n k i m None None [] [] [].
+Definition trx (s : name) (t : option name) (e : string) : transition :=
+  mkTrans s t (Some e) None None 0%Z [] [] [].
+
+(* root > A{a1,a2,H(shallow, memory a1)}, P(orthogonal){R1{r1a}, R2{r2a(final)}} *)
+Definition ex_chart : chart :=
+  mkChart "ex" None None
+    [("root", stx "root" KCompound (Some "A") None);
+     ("A", stx "A" KCompound (Some "a1") None);
+     ("a1", stx "a1" KBasic None None);
+     ("a2", stx "a2" KBasic None None);
+     ("H", stx "H" KShallow None (Some "a1"));
+     ("P", stx "P" KOrthogonal None None);
+     ("R1", stx "R1" KCompound (Some "r1a") None);
+     ("r1a", stx "r1a" KBasic None None);
+     ("R2", stx "R2" KCompound None None);
+     ("r2a", stx "r2a" KFinal None None)]
+    [("root", None); ("A", Some "root"); ("a1", Some "A"); ("a2", Some "A"); ("H", Some "A");
+     ("P", Some "root"); ("R1", Some "P"); ("r1a", Some "R1"); ("R2", Some "P"); ("r2a", Some "R2")]
+    [(None, ["root"]); (Some "root", ["A"; "P"]); (Some "A", ["a1"; "a2"; "H"]); (Some "a1", []);
+     (Some "a2", []); (Some "H", []); (Some "P", ["R1"; "R2"]); (Some "R1", ["r1a"]);
+     (Some "r1a", []); (Some "R2", ["r2a"]); (Some "r2a", [])]
+    [trx "a1" (Some "a2") "go"; trx "a2" None "tick"; trx "A" None "ping";
+     trx "a2" (Some "P") "par"; trx "r1a" (Some "H") "back"; trx "R2" (Some "a1") "out";
+     trx "r1a" (Some "R2") "swap"].
+
+Example ex_einv : einv ex_chart.
+Proof.
+  split; [|split].
+  - apply sound_b_sound; vm_compute; reflexivity.
+  - vm_compute; reflexivity.
+  - apply fields_ok_b_sound. vm_compute; reflexivity.
+Qed.
+
+(* boolean version of the side conditions, to check them by computation *)
+Definition memory_ok_b (c : chart) (st : state) (p : option name) : bool :=
+  match s_memory st with
+  | None => true
+  | Some m => is_history (s_kind st) && negb (str_eqb m (s_name st))
+              && match p with Some q => mem m (children_for c q) | None => false end
+  end.
+
+Definition op_ok_b (c : chart) (op : eop) : bool :=
+  match op with
+  | EAddState st p =>
+      negb (str_eqb (s_name st) "") && negb (ostr_eqb p (Some ""))
+      && match s_initial st with None => true | Some _ => false end && memory_ok_b c st p
+  | ERenameState _ new => negb (str_eqb new "")
+  | _ => true
+  end.
+
+Fixpoint ops_ok_b (c : chart) (ops : list eop) : bool :=
+  match ops with
+  | [] => true
+  | op :: rest => op_ok_b c op && ops_ok_b (fst (apply_eop c op)) rest
+  end.
+
+Lemma op_ok_b_sound : forall c op, op_ok_b c op = true -> op_ok c op.
+Proof.
+  intros c [st p|n|o n|n p|t|t|i s t] H; simpl in *; auto.
+  - apply andb_true_iff in H. destruct H as [H H4]. apply andb_true_iff in H. destruct H as [H H3].
+    apply andb_true_iff in H. destruct H as [H1 H2].
+    apply negb_true_iff in H1, H2. apply seqb_neq in H1.
+    split; [exact H1|]. split; [intros E; apply ostr_eqb_eq in E; congruence|].
+    split; [destruct (s_initial st); [discriminate|reflexivity]|].
+    intros m Hm. unfold memory_ok_b in H4. rewrite Hm in H4.
+    apply andb_true_iff in H4. destruct H4 as [H4 H7]. apply andb_true_iff in H4. destruct H4 as [H5 H6].
+    split; [exact H5|]. split; [apply seqb_neq, negb_true_iff; exact H6|].
+    destruct p as [q|]; [|discriminate]. exists q. split; [reflexivity|apply mem_In; exact H7].
+  - apply negb_true_iff, seqb_neq in H. exact H.
+Qed.
+
+Lemma ops_ok_b_sound : forall ops c, ops_ok_b c ops = true -> ops_ok c ops.
+Proof.
+  induction ops as [|op ops IH]; intros c H; simpl in *; [exact I|].
+  apply andb_true_iff in H. destruct H as [H1 H2]. split; [apply op_ok_b_sound; exact H1|apply IH; exact H2].
+Qed.
+
+(* a run in which 8 of the 18 calls fail *)
+Definition ex_ops : list eop :=
+  [ EAddState (stx "n1" KBasic None None) (Some "A");
+    EAddState (stx "a1" KBasic None None) (Some "A");                 (* fails: exists *)
+    EAddState (stx "H2" KDeep None (Some "r1a")) (Some "R1");         (* history with a valid memory *)
+    EAddState (stx "x" KBasic None None) (Some "a1");                 (* fails: a1 is not composite *)
+    EAddTransition (trx "n1" (Some "a2") "n");
+    EAddTransition (trx "ghost" (Some "a1") "g");                      (* fails: unknown source *)
+    ERotate (Some 0) (Some "a2") (Some (Some "nope"));                (* fails: unknown target *)
+    ERotate (Some 0) None None;                                        (* fails: ValueError *)
+    ERotate (Some 0) (Some "a2") (Some None);
+    ERenameState "A" "B";
+    ERenameState "a1" "a2";                                            (* fails: a2 exists *)
+    EMoveState "a2" "R1";
+    EMoveState "P" "r1a";                                              (* fails: into a descendant *)
+    ERemoveTransition (trx "nobody" None "none");                      (* fails: unknown transition *)
+    ERemoveState "P";
+    ERemoveState "zzz";                                                (* fails: unknown state *)
+    ERemoveTransition (trx "B" None "ping");
+    EAddTransition (trx "B" (Some "H") "h") ].
+
+Example ex_ops_ok : ops_ok ex_chart ex_ops.
+Proof. apply ops_ok_b_sound. vm_compute. reflexivity. Qed.
+
+Example ex_outcomes :
+  outcomes ex_chart ex_ops =
+  [EOk; EStatechartError; EOk; EStatechartError; EOk; EStatechartError; EStatechartError; EValueError;
+   EOk; EOk; EStatechartError; EOk; EStatechartError; EStatechartError; EOk; EStatechartError; EOk; EOk].
+Proof. vm_compute. reflexivity. Qed.
+
+Example ex_seq : einv (run_ops ex_chart ex_ops).
+Proof. apply C16_seq; [exact ex_einv|exact ex_ops_ok]. Qed.
+
+(* cross-check by computation, and the final chart *)
+Example ex_seq_check :
+  sound_b (run_ops ex_chart ex_ops) = true /\
+  map fst (c_states (run_ops ex_chart ex_ops)) = ["root"; "a1"; "H"; "n1"; "B"] /\
+  c_children (run_ops ex_chart ex_ops) =
+    [(None, ["root"]); (Some "root", ["B"]); (Some "a1", []); (Some "H", []); (Some "n1", []);
+     (Some "B", ["a1"; "H"; "n1"])] /\
+  c_transitions (run_ops ex_chart ex_ops) = [trx "B" (Some "H") "h"].
+Proof. vm_compute. repeat split; reflexivity. Qed.
+
+(* C16_atomic / C16_preserve: failing and succeeding single calls on ex_chart *)
+Example ex_atomic_instance :
+  apply_eop ex_chart (ERotate (Some 0) (Some "a2") (Some (Some "nope"))) = (ex_chart, EStatechartError) /\
+  apply_eop ex_chart (ERemoveState "zzz") = (ex_chart, EStatechartError) /\
+  apply_eop ex_chart (ERotate (Some 0) None None) = (ex_chart, EValueError).
+Proof. vm_compute. repeat split; reflexivity. Qed.
+
+(* C16_effect_remove_state: removing the compound state A (4 states, 6 transitions, root.initial) *)
+Example ex_remove :
+  let r := remove_state ex_chart "A" in
+  snd r = EOk /\
+  descendants_for ex_chart "A" = ["a1"; "a2"; "H"] /\
+  map fst (c_states (fst r)) = ["root"; "P"; "R1"; "r1a"; "R2"; "r2a"] /\
+  option_map s_initial (lookup "root" (c_states (fst r))) = Some None /\
+  c_transitions (fst r) = [trx "r1a" (Some "R2") "swap"] /\
+  sound_b (fst r) = true.
+Proof. vm_compute. repeat split; reflexivity. Qed.
+
+(* C16_effect_move_state: moving a1 (initial of A, memory of H) below R1 *)
+Example ex_move :
+  let r := move_state ex_chart "a1" "R1" in
+  snd r = EOk /\
+  children_for (fst r) "A" = ["a2"; "H"] /\ children_for (fst r) "R1" = ["r1a"; "a1"] /\
+  parent_for (fst r) "a1" = Some "R1" /\
+  option_map s_initial (lookup "A" (c_states (fst r))) = Some None /\
+  option_map s_memory (lookup "H" (c_states (fst r))) = Some None /\
+  c_transitions (fst r) = c_transitions ex_chart /\
+  sound_b (fst r) = true.
+Proof. vm_compute. repeat split; reflexivity. Qed.
+
+(* C17_structure: renaming A (which owns the internal transition "ping", is root.initial and the
+   parent of three states) *)
+Example ex_rename :
+  let r := rename_state ex_chart "A" "B" in
+  snd r = EOk /\
+  nth_error (c_transitions (fst r)) 2 = Some (trx "B" None "ping") /\
+  map fst (c_states (fst r)) = ["root"; "a1"; "a2"; "H"; "P"; "R1"; "r1a"; "R2"; "r2a"; "B"] /\
+  children_for (fst r) "root" = ["P"; "B"] /\ children_for (fst r) "B" = ["a1"; "a2"; "H"] /\
+  option_map s_initial (lookup "root" (c_states (fst r))) = Some (Some "B") /\
+  parent_for (fst r) "a1" = Some "B" /\
+  sound_b (fst r) = true.
+Proof. vm_compute. repeat split; reflexivity. Qed.
+
+(* add_state with a history state whose memory is already valid (memory_ok is not vacuous) *)
+Example ex_add_history :
+  let st := stx "H2" KDeep None (Some "r1a") in
+  op_ok ex_chart (EAddState st (Some "R1")) /\
+  snd (add_state ex_chart st (Some "R1")) = EOk /\
+  sound_b (fst (add_state ex_chart st (Some "R1"))) = true.
+Proof.
+  split; [apply op_ok_b_sound; vm_compute; reflexivity|]. vm_compute. split; reflexivity.
+Qed.
+
+(* the KeyError of add_state(s, '') on an empty chart (DESIGN section 8(7), second part): not a
+   StatechartError / ValueError, hence outside C16_atomic; excluded from op_ok by p <> Some "" *)
+Definition empty_chart : chart := mkChart "e" None None [] [] [(None, [])] [].
+Example add_state_empty_parent_keyerror :
+  sound_b empty_chart = true /\
+  snd (add_state empty_chart (stx "s" KBasic None None) (Some "")) = EKeyError /\
+  fst (add_state empty_chart (stx "s" KBasic None None) (Some "")) <> empty_chart.
+Proof. split; [vm_compute; reflexivity|]. split; [vm_compute; reflexivity|]. vm_compute. intros E; discriminate E. Qed.
+
+(* fields_ok cannot be dropped from remove_state_sound / rename_state_sound in the model: a basic
+   state record carrying an `initial` passes sound_b, and remove_state does not reset it.  (Not a
+   finding about sismic: a Python BasicState has no `initial` attribute, so the embedding of Python
+   charts always satisfies fields_ok.) *)
+Definition odd_chart : chart :=
+  mkChart "odd" None None
+    [("root", stx "root" KCompound None None); ("a", stx "a" KBasic (Some "b") None); ("b", stx "b" KBasic None None)]
+    [("root", None); ("a", Some "root"); ("b", Some "root")]
+    [(None, ["root"]); (Some "root", ["a"; "b"]); (Some "a", []); (Some "b", [])]
+    [].
+
+Lemma remove_state_sound_needs_fields_ok :
+  exists c n, sound_b c = true /\ no_empty_name c /\ fields_ok_b c = false /\
+    snd (remove_state c n) = EOk /\ sound_b (fst (remove_state c n)) = false.
+Proof. exists odd_chart, "b". vm_compute. repeat split; reflexivity. Qed.
+
+(* ================================================================== assumptions *)
+Print Assumptions sound_b_iff.
+Print Assumptions descendants_for_spec.
+Print Assumptions remove_state_spec.
+Print Assumptions remove_state_atomic.
+Print Assumptions remove_state_sound.
+Print Assumptions remove_state_no_keyerror.
+Print Assumptions rename_state_sound.
+Print Assumptions move_state_sound.
+Print Assumptions add_state_sound.
+Print Assumptions add_state_side_condition_needed.
+Print Assumptions C16_preserve.
+Print Assumptions C16_atomic.
+Print Assumptions C16_atomic_any.
+Print Assumptions C16_no_keyerror.
+Print Assumptions C16_seq.
+Print Assumptions C16_seq_skip.
+Print Assumptions C16_effect_add_transition.
+Print Assumptions C16_effect_remove_transition.
+Print Assumptions C16_effect_rotate_transition.
+Print Assumptions C16_effect_add_state.
+Print Assumptions C16_effect_remove_state.
+Print Assumptions C16_effect_move_state.
+Print Assumptions C17_structure.
+Print Assumptions C17_internal_stay_internal.
+Print Assumptions remove_state_atomic_unsound_refuted.
+Print Assumptions ex_seq.
